@@ -12,1384 +12,1523 @@ Definition show_fres (r : fres) : string :=
   end.
 Definition check (rs : list rune) : string := digest (show_fres (format_res rs)).
 Definition full (rs : list rune) : string := show_fres (format_res rs).
-Eval vm_compute in ("<<<M4459>>>" ++ check (runes_of_ascii "
-
-  packet  o{
-	crc	{
-
-    string 
-leftPad @calculatedFrom(
-
-""\n"" ) /// triple
-    `it's` ,
-uint16
-
-    x_y_z,  Logon
-,string crc 
+Eval vm_compute in ("<<<M443>>>" ++ check (runes_of_ascii "// `tick` ""quote"" 'q'
+packet A
+{
 @lengthOf(
-crc// a // b
-      )	,
-
-},	@calculatedFrom(  //x
-      """")
-	u64 matchKey
-	`` ,
-match	leftPad
-
-as
-    len
-
-{
-    00 :	//x
-	charz
-, }
-,
-    @tag( 007
-)
-
-@tag( 65535
-)
-// a // b
-    //	t
-repeat 
-    // packet A { u8 x, }
-	//x
-  	stringy  crc,  @lengthOf( 
-f32a
-    )
-
-match
-    tag as leftPad
-    { 
-""1"":  // " ++ [128512]%N ++ runes_of_ascii " emoji
-_x
-    ,
-    // trailing space 
-  //x
-	} ,
-
-    roots{ tag
-, 
-float64 body
-	, // packet A { u8 x, }
-f64 As
-@lengthOf( // trailing space 
-	  tag
-)
-`line1
-line2`
-
-    ,
-
-    }
-, 
-i64_ @calculatedFrom( 
-	// trailing space 
-  ""x y"" // `tick` ""quote"" 'q'
-  )
-
-    , // " ++ [128512]%N ++ runes_of_ascii " emoji
-  Packet @calculatedFrom(
-	""\n""	)  ,
-	@lengthOf(	BodyLength
-) char[
-	42
-    // a // b
-]int
-    @lengthOf(lengthOf
-	)	`say ""hi""`
-	,
-}  MetaData u{ f64 msg_type,
-uint8
-As	`say ""hi""` ,
-
-    leftPad packetx
-
-    ,
-    int32 As// " ++ [27880; 37322]%N ++ runes_of_ascii "
-	`tab	here`
-, i64
-    trueish,
-
-uint16	calculatedFrom  ,
-
-    } packet
-	f32a {
-roots x_y_z ,
-
-match
-body as	f32a
-	    // @lengthOf(
-	//	t
-	  {
-
-[ 
-255 
-,10
-	] 
-  // packet A { u8 x, }
-  // `tick` ""quote"" 'q'
-	:
-BodyLength
-,""// no comment"" :packetx , [
-
-    ""{,}""
-	,
-	65535 ,4294967296
-    ,
-255
-,
-    7
-
-    ,	//x
-""{,}""// a // b
-  ,  """"
-
-,
-
-    0
-] 
-:
-uint8x  255
-
-:trueish
-
-    , 7
-
-    :  u128
-
-, 
-0123456789: asx
-,
-
-    } , 	 // " ++ [128512]%N ++ runes_of_ascii " emoji
-match 
-
-    //	t
-
-  A
-as
-
-    o	{ 
-0 
-: trueish// `tick` ""quote"" 'q'
-    ,
-""1"" : i8i8	, 42
-
-    :
-Z9_
-    , }	,
-
-options1	,
-	@tag( 0123456789
-    )
-    repeat 
-/// triple
-	zchar	{ 
-Foo
-@lengthOf(  float
-	) 
-,/// triple
-
-	} // c
-
-,
-	match
-msg_type as	u
-    {// packet A { u8 x, }
-	0123456789 :  repeatCount
-
-,},
-@calculatedFrom(
-
-""it's""
-)i64_@lengthOf(
-x_y_z )
-,
-
-char[  00
-    ] Packet`" ++ [28040; 24687; 31867; 22411]%N ++ runes_of_ascii "` ,	u16	// @lengthOf(
-lengthOf`a\`
-,
-    @calculatedFrom(""\" ++ [233]%N ++ runes_of_ascii """)	i64_ 
-int , } packet
-    uint8x
-{  string Header 
-@lengthOf( matchKey ) `" ++ [28040; 24687; 31867; 22411]%N ++ runes_of_ascii "`
-
-    , }packet
-crc
-
-{ 
-    // " ++ [128512]%N ++ runes_of_ascii " emoji
-	// `tick` ""quote"" 'q'
-  }
-
-")).
-Eval vm_compute in ("<<<M1242>>>" ++ check (runes_of_ascii "// " ++ [128512]%N ++ runes_of_ascii " emoji
-packet f32a { falsey, } packet metadata { //	t
-@lengthOf(tag )
-u8 A @calculatedFrom(  """ ++ [28040; 24687]%N ++ runes_of_ascii """
-) `// not a comment` ,
-@calculatedFrom( """ ++ [28040; 24687]%N ++ runes_of_ascii """
-) i64 i64_ @calculatedFrom( ""abc""// packet A { u8 x, }
-)`a\` ,u8
-u128  ,
-string_ `line1
-line2` ,@calculatedFrom(// " ++ [128512]%N ++ runes_of_ascii " emoji
-""\" ++ [233]%N ++ runes_of_ascii """  ) // " ++ [27880; 37322]%N ++ runes_of_ascii "
-@calculatedFrom( ""it's"" ) @calculatedFrom( // c
-""\n"") repeat pack { zchar[ 0
-    ] Foo
-    @lengthOf(
-uint8x ) , float32 x , } , repeat roots`a\` ,f64 Header @calculatedFrom(
-""// no comment"" ) , zchar[42 ] zchar	, options1 o// " ++ [27880; 37322]%N ++ runes_of_ascii "
-`" ++ [28040; 24687; 31867; 22411]%N ++ runes_of_ascii "`
-, repeat
-    zchar[ 7 ] len
-, // " ++ [27880; 37322]%N ++ runes_of_ascii "
-}
-packet MetaDataX{ @calculatedFrom( ""a	b"" )repeat u128 { match rootA as
-crc {007
-:
-pack
-    , 10 : u8x ,""a\\"" : falsey , [
-    //x
-    ""{,}"",
-0 , """ ++ [233]%N ++ runes_of_ascii "t" ++ [233]%N ++ runes_of_ascii """ , 42
-    // a // b
-    ,
-255
-, ""\n"", 10 , ""// no comment""// c
-] : leftPad
-, ""1"" :
-    x_y_z ,
-7
-    :	Z9_ ,} // " ++ [27880; 37322]%N ++ runes_of_ascii "
-, } ,
-msg_type { repeat char[]  Pad ,/// triple
-uint16 body
-, }
-,
-    // `tick` ""quote"" 'q'
-    uint16 u@lengthOf(leftPad)
-    ,	@tag( 255 //
-) repeat u128
-{ repeat string_, repeatCount pack , repeat	stringy
-{
-    zchar[ 10 ] crc
-    `doc`, i16
-leftPad @calculatedFrom( ""it's"" ) `
-`
-    ,
-    tag { repeat
-char[] repeatCount `u8 x,`
-//	t
-// trailing space 
-, match	stringy
-as Foo	{
-1 : asx, }
-,match i64_ as Packet
-{ ""a\""b"" :  Pad,
-    ""a\\"": o ,
-    [0, 0123456789 ,7 , 1 , //x
-1, 7 ]
-// @lengthOf(
-//x
-: matchKey
-, },  } ,
-} , i64 body
-@lengthOf( metadata)  `u8 x,`  , } ,
-string crc `two words` , @lengthOf(
-charz )@calculatedFrom(""" ++ [233]%N ++ runes_of_ascii "t" ++ [233]%N ++ runes_of_ascii """ )
-match
-    string_ as
-stringy{ // @lengthOf(
-[	0  ] :
-pack // c
-,""CRC32"": crc , 1
-: int ,
-}//
-, repeat // `tick` ""quote"" 'q'
-u8
-matchKey `` ,repeat int8 // a // b
-matchKey , Header // `tick` ""quote"" 'q'
-crc , } // `tick` ""quote"" 'q'")).
-Eval vm_compute in ("<<<M3731>>>" ++ check (runes_of_ascii "packet a1 
-{
-
-    repeat uint8x	{ zchar[	3 
-] metadata
-
-    @lengthOf(	chars
-
-)
-
-    `it's`  , u8 
-packetx
-
-    @calculatedFrom(""CRC32"") `two words`  ,
-
+msg_type )
 repeat
-leftPad
-
-    {match MetaDataX	as  f32a
-
-    {
-
-    [
-4294967296]  :	packetx
-, 255:
-
-    As
-, [ ""\n""
-, ""\" ++ [233]%N ++ runes_of_ascii """	,007 ,
-    """ ++ [128512]%N ++ runes_of_ascii """ 
-,
-7	]  :
-float
-    , 0123456789	: 	 /// triple
-
-	u128 ""a\""b"" :
-
-calculatedFrom ,
-	} ,
-match
-	len
-
-as
-
-u
-
-{[ 42 ,4294967296 ]
-
-: 
-a1
-	,""it's""	: rootA  ,
-
-    7
-	:
-
-    lengthOf
-
-    , ""`tick`"" :
-
-rootA 
-,
-
-    4294967296
-	:
-    calculatedFrom
-,  } ,  repeat
-string
-MetaDataX `it's` 
-,
-
-    }
-,
-
-uint16
-	uint8x
-,
-}, string_ @lengthOf(
-u), zchar[  0123456789	]
-    pack@calculatedFrom( """"  /// triple
-    )`u8 x,`  ,  @lengthOf(	x_y_z
-
-    )@lengthOf( u128
-)@tag(
-    007)zchar[ 
-10 ]
-	_x `doc` ,
-string
-    BodyLength , 
+int64	rootA
+// " ++ [27880; 37322]%N ++ runes_of_ascii "
 // `tick` ""quote"" 'q'
-
-// `tick` ""quote"" 'q'
-	i64 msg_type
+,x
+    ,
+@calculatedFrom( """"
+) //x
+x @lengthOf(// @lengthOf(
+trueish )
+, match
+    x
+as x_y_z
+{
+""a\""b"": // trailing space 
+packetx}
+    , packetx @calculatedFrom("""" )
 `u8 x,` ,
-
-f64
-Pad 
-`say ""hi""`
-	,	string
-
-// c
-	//x
-  float,f64 lengthOf@calculatedFrom( """ ++ [28040; 24687]%N ++ runes_of_ascii """
-	)
-, 	 // " ++ [128512]%N ++ runes_of_ascii " emoji
-  }
-    options{ // packet A { u8 x, }
-  matchKey 
-=
-
-f32
-;
-}
-
-packet
-    Foo
-{repeat
-
-    T  // packet A { u8 x, }
-	  , repeat
-    string_ { i16  uint8x
-
-,  }// a // b
-
-  ,repeat	falsey A`doc`, repeat
-lengthOf 
+float32
+u128 `crlf
+line` , match x
+    as
+T { [ ""packet""
+    ]
+: body} , x_y_z
+@calculatedFrom( """" ) ,
+    rootA
+tag ,
+    } root packet
+    body
+// " ++ [27880; 37322]%N ++ runes_of_ascii "
+/// triple
+{@calculatedFrom( ""a\\""
+)
+    repeat i8
+metadata ,	@calculatedFrom( """ ++ [128512]%N ++ runes_of_ascii """
+    )
+    repeat	pack string_,@rightPad
+    (//x
+' ') char[ 10 ]
+calculatedFrom@lengthOf(  pack)`doc`	,	@calculatedFrom(
+    ""it's"" //	t
+) repeat Packet
+{// " ++ [27880; 37322]%N ++ runes_of_ascii "
+match options1 as
+body
+{ ""\n""
+: Foo,
+3 : //
+asx , }
+    ,} , @lengthOf( As
+)float64 Logon @calculatedFrom( """" )
     /// triple
-  i8i8
-	`tab	here`  ,  repeat char[
-
-    10] x_y_z//
-		``	,	//	t
-		@leftPad
-
+    ,	i64_ {match  x_y_z
+as string_  { 42: pack ""\" ++ [233]%N ++ runes_of_ascii """ // " ++ [128512]%N ++ runes_of_ascii " emoji
+: rootA , 255
+    :lengthOf 4294967296
+:tag ,
+} , }  , @tag( 3 )
+    @tag( 7  )	@rightPad ()repeat
+//x
+//x
+uint64 u128, int16
+    packetx // " ++ [27880; 37322]%N ++ runes_of_ascii "
+`" ++ [233]%N ++ runes_of_ascii "`
+// " ++ [27880; 37322]%N ++ runes_of_ascii "
+// c
+,
+repeat
+metadata
+//
+/// triple
+len
+//x
+// trailing space 
+,
+} packet rootA{ repeat A{
+    repeat T {roots @lengthOf( i64_ )
+    ,
+u16
+    tag @calculatedFrom( ""packet"" )  ,  string falsey @calculatedFrom(
+    ""\n"" ) ,
+match x as u8x
+//	t
+// " ++ [27880; 37322]%N ++ runes_of_ascii "
+{ 0 // trailing space 
+: string_
+,
+"""" :  _x""\" ++ [233]%N ++ runes_of_ascii """/// triple
+:
+    MetaDataX , } , },}	,
+    @calculatedFrom(	""a\""b"") repeat
+    i16 i8i8  ,
+repeat
+float32 BodyLength `two words` , @leftPad
+(
+    ) u32 _x // packet A { u8 x, }
+@calculatedFrom( ""CRC32"" ), @leftPad (
+' '	) crc @lengthOf( o )
+`u8 x,`  , @lengthOf(Packet )	msg_type
+Z9_  , u { repeat o, }
+, }
+packet rootA
+{ repeat T uint8x,
+}
+    //	t
+    packet x_y_z { @tag( 255 // " ++ [128512]%N ++ runes_of_ascii " emoji
+)  float64
+lengthOf ,@rightPad
+    // " ++ [128512]%N ++ runes_of_ascii " emoji
+    ( '0' )
+    len
+@calculatedFrom( ""a\\""
+) ,
+uint32 Logon	@calculatedFrom(  ""`tick`"" //	t
+) `it's`
+, @rightPad (
+    ) zchar[ 00
+    ]  len ,	@tag( // packet A { u8 x, }
+3)char[ 255 ] Header//x
+`{ , }` ,  match Logon	as
+metadata { ""{,}""
+    : pack , } , }")).
+Eval vm_compute in ("<<<M758>>>" ++ check (runes_of_ascii "root packet o
+    {
+@lengthOf( BodyLength) uint64 string_@calculatedFrom( ""a\""b""
+) ,	repeat tag { match crc  as  lengthOf
+    { ""{,}"" :
+    //	t
+    i8i8 , 255 : trueish
+// c
+/// triple
+[ 10
+    // @lengthOf(
+    , 1 ,
+    // " ++ [128512]%N ++ runes_of_ascii " emoji
+    ""abc"" , 0123456789 ,
+4294967296
+    ,
+00
+    ]	: body } ,
+int32 uint8x @calculatedFrom( ""// no comment"" ) ,// @lengthOf(
+zchar[3
+] msg_type `` , repeat
+float32 pack`it's` //
+, }, match  u as _x	{
+00
+: calculatedFrom , 255 // @lengthOf(
+: float ,
+""\n"" : repeatCount,
+    } ,@tag(
+3
+    ) match
+// c
+//
+A as Z9_ { ""a\\"": //x
+rootA""// no comment"" : f32a,[ ""x y"" ]: i64_ } ,x_y_z ,
+int32 f32a , // packet A { u8 x, }
+@leftPad
     (
 )
-	@rightPad(  ) options1
+f32 roots , @lengthOf( packetx ) @tag(  255 )// c
+@tag(
+    3
+    )i32
+    string_
+    @calculatedFrom(
+//	t
+// packet A { u8 x, }
+""" ++ [128512]%N ++ runes_of_ascii """)
+    `doc`,@leftPad ( ) int8 trueish // `tick` ""quote"" 'q'
+@lengthOf(	uint8x
+/// triple
+// " ++ [27880; 37322]%N ++ runes_of_ascii "
+) ,
+    zchar[
+    007] tag
+    @calculatedFrom(""{,}"" )
+    , } packet leftPad {
+string Foo
+, metadata
+//	t
+// " ++ [128512]%N ++ runes_of_ascii " emoji
+u8x ,
+msg_type // c
+`
+` ,  @leftPad
+(
+    )
+repeat metadata {
+//x
+//	t
+char[]
+// a // b
+// packet A { u8 x, }
+i8i8@calculatedFrom( ""CRC32""
+)
+    , char[1  ] rootA , match falsey as zchar { 4294967296 :leftPad}
+, // c
+char[/// triple
+007 ]stringy @lengthOf(
+    /// triple
+    i64_	)`a\` ,// packet A { u8 x, }
+} ,
+    @rightPad (
+    '0'
+) @lengthOf(
+    /// triple
+    x
+    ) @calculatedFrom(
+""1"" ) repeat roots
+    ,
+    char[]  int@calculatedFrom(""" ++ [128512]%N ++ runes_of_ascii """)`a\`
+    ,zchar[
+42 ] stringy ,
+@lengthOf(chars )
+char[ 255 ] int,
+    crc@lengthOf(
+    falsey
+    )`line1
+line2`
+    ,}
+// trailing space 
+")).
+Eval vm_compute in ("<<<M588>>>" ++ check (runes_of_ascii "MetaData stringy { } packet Packet
+//	t
+// c
+{ char[007  ] o @calculatedFrom(""1"" ) //	t
+, // @lengthOf(
+}  packet
+    o{ u128	{
+u8 crc  , zchar[	1
+    ] _x
+@lengthOf(  Z9_ )
+    /// triple
+    `doc`
+,
+    char[ 7 ]
+    falsey , }
+, @lengthOf( int) match	chars
+    as
+asx
+{
+[ 255
+]	: x_y_z , 255 : o 0123456789 :
+a1, ""// no comment"" :
+    trueish, }, } packet Z9_	{	@rightPad ( '0')@tag(	00 ) f32
+uint8x @calculatedFrom( //	t
+""" ++ [128512]%N ++ runes_of_ascii """ ) , } packet leftPad {
+match
+roots as trueish { [""{,}""
+,0 // " ++ [128512]%N ++ runes_of_ascii " emoji
+] : BodyLength, 65535 : As 65535 :zchar ,
+3:rootA , 255 : x_y_z ,
+} , @leftPad() float32	x_y_z	, repeat T
+{ u128 @calculatedFrom(
+""CRC32"" ) , char[]
+    tag @lengthOf(MetaDataX)
+,  float  rootA,
+Foo @calculatedFrom(
+    ""packet""
+) , }
+// `tick` ""quote"" 'q'
+//x
+, match x
+as msg_type {
+    3
+:
+u
+} ,@lengthOf( tag
+/// triple
+/// triple
+)
+string  a1,@rightPad( '0'
+    ) @tag(
+// a // b
+// a // b
+7 ) match
+Logon
+// a // b
+//	t
+as
+    /// triple
+    falsey
+    {
+""CRC32"" // c
+:
+    // " ++ [27880; 37322]%N ++ runes_of_ascii "
+    x//
+,4294967296
+: Header,""// no comment""
+    // " ++ [128512]%N ++ runes_of_ascii " emoji
+    :
+    charz 00:// trailing space 
+u128
+} , @calculatedFrom(
+""a\""b"" ) @calculatedFrom(""a\""b"") @tag(
+    // " ++ [128512]%N ++ runes_of_ascii " emoji
+    42
+    //x
+    )	repeat zchar[  00
+] falsey	,
+    // " ++ [27880; 37322]%N ++ runes_of_ascii "
+    @tag(// a // b
+4294967296 ) @calculatedFrom( ""abc""
+    )@rightPad( ' '
+    ) crc @calculatedFrom( ""\" ++ [233]%N ++ runes_of_ascii """ // " ++ [128512]%N ++ runes_of_ascii " emoji
+)
+,
+    u16 metadata , }
+")).
+Eval vm_compute in ("<<<M3722>>>" ++ check (runes_of_ascii "packet string_// packet A { u8 x, }
 
-`doc`  ,u32
-	packetx , 
+	{ @lengthOf(x_y_z	// " ++ [128512]%N ++ runes_of_ascii " emoji
+      )
+
+u8x  // @lengthOf(
+@lengthOf( 
+MetaDataX ) ,	match
+u128	as
+
+    calculatedFrom
+{ ""// no comment""  :
+	Foo 
+}	,@tag(
+	255
+)  f32a
+    body
+, f64
+i64_
+
+`two words`
+    ,
+@tag( 7
+	)
+@leftPad ()
+
+    // c
+		// a // b
+  @calculatedFrom( """ ++ [233]%N ++ runes_of_ascii "t" ++ [233]%N ++ runes_of_ascii """  )
+uint16
+
+    u@lengthOf(
+
+    i64_ ) `tab	here`,	@lengthOf( options1) roots 
+{string
+
+    x@calculatedFrom(
+
+""1""
+    ) 
+, len`say ""hi""`,
+    rootA
+@lengthOf(
+    crc
+
+    ) 
+//	t
+  , i64_
+    @lengthOf(
+Logon )
+	// trailing space 
+  	`doc`
+
+,} 
+//
+	//
+,
+
+Packet
+    @calculatedFrom(
+""abc"" ) ,
+    @tag(
+    7 )
+
+    @lengthOf(crc )  match crc
+as
+Z9_ {
+42 
+: u128
+	10
+	:
+Packet ,  ""packet"": repeatCount [
+""" ++ [128512]%N ++ runes_of_ascii """ ,
+""abc""  // " ++ [27880; 37322]%N ++ runes_of_ascii "
+	]
+
+    :
+
+    u8x  [ ""a\""b"" 	 /// triple
+	,
+42	]
+
+    :
+	rootA
+    , [
+    007
+, ""1"" , 
+//	t
+    """ ++ [233]%N ++ runes_of_ascii "t" ++ [233]%N ++ runes_of_ascii """] :
+chars  ,}
+
+    , }	root
+packet
+u{@calculatedFrom(""CRC32""
+	) _x 
+@calculatedFrom(
+""\" ++ [233]%N ++ runes_of_ascii """)
+
+    , calculatedFrom 
+lengthOf
+,  @rightPad
+	()uint32  zchar
+	@calculatedFrom(""" ++ [233]%N ++ runes_of_ascii "t" ++ [233]%N ++ runes_of_ascii """
+
+) ,
+A
+    , }root
+
+packet
+int { 
+    // `tick` ""quote"" 'q'
+// `tick` ""quote"" 'q'
+char stringy
+	`a\`,  // trailing space 
+}
+
+    options
+	{
+	Z9_//	t
+		=
+
+""abc"";crc =
+' '
+
+    ;matchKey
+=
+
+00 
+;
+	}
+")).
+Eval vm_compute in ("<<<M3708>>>" ++ check (runes_of_ascii "
+
+  packet	trueish 
+    // @lengthOf(
+
+{ 
+char[ 7]	chars
+@calculatedFrom(
+
+    """ ++ [128512]%N ++ runes_of_ascii """ )
+
+    , 
+char[]uint8x
+
+@calculatedFrom(""`tick`""
+
+)	// c
+      `
+` , int16  // a // b
+    metadata @calculatedFrom(
+""" ++ [128512]%N ++ runes_of_ascii """	// @lengthOf(
+  ) `doc`,pack@lengthOf(
+    stringy
+) ,
+
+    u8 
+float
+
+    @lengthOf( 
+leftPad	)
+
+    , @lengthOf(chars
+)
+	f32a
+
+trueish
+
+    ,  repeat
+zchar[	//	t
+	4294967296 ]
+
+    u
+    ,@leftPad ( 
+  //
+
+  ' ' 	 // trailing space 
+    )
+    @lengthOf(leftPad	) 
+@tag(	7
+
+) 
+repeat
+
+    string u128	,
+	}
+
+    packet Header
+{	u64 leftPad
+
+, @lengthOf( u128	)  repeat
+uint32  T ,
+
+@tag( 4294967296 )repeat
+
+    uint32
+    x_y_z ``
+,
+T ,
+@tag(
+	1
+    ) 
+zchar[
+7 
+]Packet @lengthOf(f32a 
+)
+	    // @lengthOf(
+	//x
+      , // trailing space 
+	  float32 lengthOf , // packet A { u8 x, }
+i32 	 // " ++ [128512]%N ++ runes_of_ascii " emoji
+	calculatedFrom
+    `crlf
+line` ,
+	@tag(
+0123456789 )
+    @tag(1  // trailing space 
+
+	)  
+  //
+
+// `tick` ""quote"" 'q'
+@calculatedFrom(
+
+""" ++ [128512]%N ++ runes_of_ascii """
+)float32 lengthOf
+	@calculatedFrom(""\n"" )`" ++ [233]%N ++ runes_of_ascii "`
+,
+zchar[ 
+007
+    ]zchar
+@calculatedFrom(
+    // a // b
+  // packet A { u8 x, }
+		""abc""
+
+)
+`" ++ [28040; 24687; 31867; 22411]%N ++ runes_of_ascii "`/// triple
+
+,
+	int32 roots
+,  }
+")).
+Eval vm_compute in ("<<<M4125>>>" ++ check (runes_of_ascii "
+MetaData
+asx
+
+{
+
+    }
+	options{
+body= 
+    //x
+    	// @lengthOf(
+char[]  ;	// @lengthOf(
+	repeatCount
+=true
+;
+	packetx =
+""a\""b"" 
+;
+	float=	""x y"" ; zchar
+	// @lengthOf(
+
+	=
+	""\" ++ [233]%N ++ runes_of_ascii """
+;  }
+    MetaData 
+_x{
+    u16 
+falsey  ``  ,
+    }
+    root 
+packet 
+metadata
+
+    {	}packet
+    Foo
+
+{
+
+repeat 
+        // trailing space 
+
+	u128
+	, @tag(  // trailing space 
+
+  7  )uint16
+	MetaDataX
+	,
+    @tag(
+1
+
+) 
+        /// triple
+falsey
+
+    `say ""hi""` 
+, 
+@rightPad	(//	t
+
+)
+
+    @tag(3
+	)	u ,@lengthOf(
+    roots// " ++ [128512]%N ++ runes_of_ascii " emoji
+    )
+
+match
+
+body
+	as repeatCount
+
+    {  ""CRC32""// " ++ [27880; 37322]%N ++ runes_of_ascii "
+    :
+
+asx ,
+
+42
+	:msg_type
+
+    },  // packet A { u8 x, }
+stringy {	repeat
+char[
+// c
+  3 ]uint8x ,
+match Logon
+as A 
+{""abc""
+	:
+
+    i8i8 
+,
+	}
+	,  match
+
+BodyLength
+    as
+    len
+    { [
+0123456789
+,  
+  //
+
+	// @lengthOf(
+
+  007	,
+	4294967296
+    , ""{,}"" ]	:	// " ++ [128512]%N ++ runes_of_ascii " emoji
+Foo
+
+,	} //	t
+  ,  } ,
+@leftPad 
+('0'
+
+    ) 
+uint8x @lengthOf(
+
+i8i8
+	)	, 	 //	t
+    _x{ 
+repeat 
+x
+`line1
+line2`
+, }
+,	@tag(
+	42
+
+) falsey
+        // trailing space 
+      u128	// trailing space 
+  	,
+int64 MetaDataX ,}
+")).
+Eval vm_compute in ("<<<M210>>>" ++ check (runes_of_ascii "packet chars
+    {
+int32 trueish ,match Pad
+as repeatCount { [0] :// " ++ [27880; 37322]%N ++ runes_of_ascii "
+Pad
+    , /// triple
+3
+: Foo , ""abc""
+    :
+i64_ //	t
+, [255
+    ,	3 ]
+    :
+Packet ,[
+0123456789 // @lengthOf(
+,""// no comment"" ]
+: Packet , }
+    , // c
+match  a1 as u {[// `tick` ""quote"" 'q'
+""abc""
+, """ ++ [233]%N ++ runes_of_ascii "t" ++ [233]%N ++ runes_of_ascii """
+, """" ,  0
+    ,
+    //	t
+    255 ]
+:u
+    //	t
+    ,
+    } ,@tag(  10
+    ) match a1
+    as a1
+{
+    [42
+    ]//
+:packetx ,
+    } ,@lengthOf(As ) repeat	char[0123456789] repeatCount`tab	here` ,string o `crlf
+line` ,
+//x
+// a // b
+As
+    @lengthOf(//x
+i8i8 )
+    , string repeatCount @lengthOf( u128 ) ,
+    //
+    @tag( 00 ) repeat pack Logon , }	root packet Foo {@tag( 1)char[ // packet A { u8 x, }
+3
+]
+i64_ ,
+f32
+// packet A { u8 x, }
+// " ++ [27880; 37322]%N ++ runes_of_ascii "
+charz , // `tick` ""quote"" 'q'
+i8 zchar
+    @lengthOf(// `tick` ""quote"" 'q'
+MetaDataX ) /// triple
+,@tag( 007 )u8 _x ,@tag(  255 ) msg_type@calculatedFrom(""`tick`"") `doc` ,  @calculatedFrom( """ ++ [233]%N ++ runes_of_ascii "t" ++ [233]%N ++ runes_of_ascii """ ) match len as /// triple
+As {""// no comment"" : falsey ,
+    }  , } MetaData leftPad{ x i8i8 , } //")).
+Eval vm_compute in ("<<<M3953>>>" ++ check (runes_of_ascii "
+
+  options
+{ StringPrefixLenType = u32
+
+    ;
+
+ArrayPrefixLenType= 
 u8
 
-float`crlf
-line` 
-, } packet  tag
+    ;
+FixedStringPadFromLeft
+= 
+false 
+;
 
-{
-} 
-    // " ++ [128512]%N ++ runes_of_ascii " emoji
-")).
-Eval vm_compute in ("<<<M1331>>>" ++ check (runes_of_ascii "packet//x
-Logon{@tag( 255 ) match roots as u128{  ""`tick`"" //x
-:
-matchKey
-    ,	1 : Foo} ,
-@tag( 65535 ) @lengthOf(	charz ) @calculatedFrom(
-""// no comment"" ) i8 trueish ,
-    float32 o  @lengthOf( i8i8 )
-,
-    @rightPad ( ' ' ) u8x  `two words`,
-repeat u64 i8i8 ,  match
-    zchar as x_y_z { """ ++ [128512]%N ++ runes_of_ascii """ : charz , } // @lengthOf(
-,@lengthOf(
-repeatCount)// " ++ [128512]%N ++ runes_of_ascii " emoji
-u32 falsey `// not a comment` , } options // @lengthOf(
-{ // " ++ [128512]%N ++ runes_of_ascii " emoji
-falsey=""" ++ [128512]%N ++ runes_of_ascii """ ;
-packetx = """ ++ [233]%N ++ runes_of_ascii "t" ++ [233]%N ++ runes_of_ascii """
-// @lengthOf(
-// @lengthOf(
-u128// " ++ [128512]%N ++ runes_of_ascii " emoji
-= """" ;options1
-= true
-; // packet A { u8 x, }
-} options{ float =""a	b"" ; packetx =// `tick` ""quote"" 'q'
-true calculatedFrom =
-u64
-    ;Packet =
-'\x00' ;
-    BodyLength=
-    false //	t
-; } MetaData falsey
-{// " ++ [27880; 37322]%N ++ runes_of_ascii "
-BodyLength Logon`line1
-line2`
-,
-    zchar chars `a\` , repeatCount
-// " ++ [27880; 37322]%N ++ runes_of_ascii "
-// `tick` ""quote"" 'q'
-BodyLength , zchar
-i8i8 ,
-    }packet	packetx { repeat
-    int8
-Logon
-    ,
-    @calculatedFrom( ""abc"" ) match Logon as	BodyLength {	65535 /// triple
-:pack ,// a // b
-[ ""CRC32""
-    , ""it's""
-, 4294967296 ,
-""CRC32"" ,
-    ""a\\"",""`tick`"",
-255, 007
-]
-    // packet A { u8 x, }
-    : matchKey
-, [255
-]  : falsey
-, } , repeat Packet // c
-`tab	here` ,
-    @lengthOf(
-    charz
-)zchar[ 42] tag@calculatedFrom( ""// no comment"" ) `
-`	, uint64 //	t
-u8x
-`" ++ [28040; 24687; 31867; 22411]%N ++ runes_of_ascii "` , }
-")).
-Eval vm_compute in ("<<<M213>>>" ++ check (runes_of_ascii "packet a1
-{
-@lengthOf(	f32a	) repeat u64	string_
-    ,
-    @calculatedFrom( """"
-    ) repeat	i16 tag `u8 x,` , @tag( 42 ) @calculatedFrom(	""a\\"")  @calculatedFrom( ""\" ++ [233]%N ++ runes_of_ascii """
-) zchar[ 10
-] Foo , char[42
-    //	t
+    } packet
+    Logon
+    {i8
+venue 
+, int16  f1,
+zchar[
+
+8
+
     ]
-    body `// not a comment` , }MetaData roots{ uint64
-Z9_ `{ , }`,
-char[]charz `doc` , uint16 u128 `u8 x,` , zchar[ 4294967296 // trailing space 
-]
-    len
-,
-float32
-stringy
-,
-} packet
-Z9_	{ @leftPad ('\x00')
-    @tag(42 ) @tag( 7)
-    roots x
-    , @lengthOf( int ) crc zchar
-//	t
-//
-, } packet string_ { u8 Pad
-// c
-// " ++ [128512]%N ++ runes_of_ascii " emoji
-, u64 chars
-,
-    @lengthOf(	Logon
-)
-    pack
-,
-@leftPad (
-    ) @rightPad//
-(
-    ' '	)@calculatedFrom(""a	b"")
-    i8 x `crlf
-line`
-    , char[ 0123456789 // @lengthOf(
-]options1 @calculatedFrom( ""{,}"" )
-`two words` ,uint64 charz `doc` , char[] u128
-// packet A { u8 x, }
-//	t
-,
-    @calculatedFrom( ""1"" ) repeat matchKey
-    {
-repeat int o// c
-, } ,
-@lengthOf(calculatedFrom
-    )@rightPad ( '\x00')
-@tag( 00 )
-MetaDataX { uint32 BodyLength, } ,
-// trailing space 
-//
-} packet lengthOf {  @calculatedFrom(	""" ++ [28040; 24687]%N ++ runes_of_ascii """
-    )
-// trailing space 
-// " ++ [27880; 37322]%N ++ runes_of_ascii "
-repeat	repeatCount { repeat char[ 7]	pack `// not a comment`, }
+
+Acct
+
+    ,
+
+    repeat
+InNote16{InQty73
+{
+	float32 tag7,
+    }
+
+,  f32 Acct
+    ,	zchar[
+
+    5]
+sym
 , }
+
+,uint16
+    Side2
+
+,
+    i32 lastPx
+    ,
+
+    }packet
+
+Fill  { repeat InOrderid15 {
+	zchar[ 8
+]
+    sym, repeat
+    char[	2
+
+]  OrderId ,repeat Logon
+	,
+    InQty82
+{  char[]
+Tail
+
+,repeat	Logon
+
+    ,
+float64 price 
+, f64
+Side2
+
+    , }
+,
+    char[ 12 ] venue ,char[
+4 
+]
+
+    Px
+    ,	} ,
+
+@rightPad( '0' ) char[
+
+    2
+	]
+
+    venue,
+InPrice99{
+	InAcct72 {
+
+u8
+
+pad0	,
+
+}
+,u32
+    OrderId
+	,
+	Logon
+
+,
+}
+    ,
+}root
+
+    packet
+    Reject {
+    zchar[ 9
+    ] 
+msgKind , u32
+
+venue  ,u16
+
+seqNo 
+@lengthOf(  Body )
+,  match venue
+
+as
+
+    Body  {57
+:
+
+    Fill ,8
+:  Logon
+, } ,
+u16
+
+Tail @calculatedFrom(
+    ""CRC32""
+    )
+, }
+
 ")).
-Eval vm_compute in ("<<<M3742>>>" ++ check (runes_of_ascii "root packet options1 {
-    repeat u {
-        f64 roots,
-    },
-    zchar falsey `crlf
-    line`,
-    match u as Foo {
-        42 : lengthOf,
-        ""\n"" : crc,
-        [4294967296, 4294967296, 3, ""\" ++ [233]%N ++ runes_of_ascii """, ""x y""] : o,
-    },
-    a1 `crlf
-    line`,
-    @rightPad()
-    char[0123456789] x_y_z `line1
-    line2`,
-    @lengthOf(trueish)
-    i32 A `u8 x,`,
-}
+Eval vm_compute in ("<<<M4114>>>" ++ check (runes_of_ascii "root
 
-packet packetx {
+packet
+    body
+	{ 	 /// triple
+      crc
+
+x_y_z`say ""hi""`	,
+
+float 	 // `tick` ""quote"" 'q'
+  _x
+
+,
+    T 	 // " ++ [128512]%N ++ runes_of_ascii " emoji
+	`a\`
+	    // " ++ [27880; 37322]%N ++ runes_of_ascii "
+
+  ,uint64
+MetaDataX ,
+
+    repeat 
+zchar[
+7	]	calculatedFrom``, 
+uint32
+
+    len 
+	    // c
+	  // @lengthOf(
+    	`a\`
+
+    ,
+
+    }/// triple
+    options 
+{	} 
+packet
+a1 {
+@tag(	1
+)
+	Logon
+    @lengthOf(  options1 )
+`{ , }`
+, @calculatedFrom(
+    ""abc""
+
+    )
+/// triple
+      f32a // " ++ [27880; 37322]%N ++ runes_of_ascii "
+    {
+leftPad
+{ // trailing space 
+
+  o	matchKey ``
+,
+	}
+	,int32 int
+	// c
+	  // @lengthOf(
+      ``
+	, char[
+007
+
+    ]zchar 
+@lengthOf(Z9_
+	)
+    `tab	here`,
+char[
+    1	]
+falsey
+
+,
+	}
+	,
+repeat int16
+    Z9_  ,
+
+match
+zchar
+as
+
+    zchar 
+{
+
+    ""packet"" :
+x_y_z
+	,
+	[3 
     // " ++ [128512]%N ++ runes_of_ascii " emoji
-    match u as u8x {
-        // " ++ [27880; 37322]%N ++ runes_of_ascii "
-        255 : lengthOf,
-        [
-            7, 00, 10, 0, 007,
-            3, """ ++ [233]%N ++ runes_of_ascii "t" ++ [233]%N ++ runes_of_ascii """, ""a\\""
-        ] : string_,
-        0123456789 : f32a,
-    },// trailing space 
-    stringy @calculatedFrom(""\" ++ [233]%N ++ runes_of_ascii """) `line1
-    line2`,
-    @leftPad()
-    zchar[10] trueish,// packet A { u8 x, }
+	, 
+""CRC32""	,0, ""CRC32""	//
+	,0123456789]
+	:len
+,
+[
+0
+,	4294967296 ]
+    :
+Packet ,
+    [
+
+65535
+
+]
+    : options1[ 10 ]	//	t
+	:  u128 ,	}
+
+, // packet A { u8 x, }
+  }
+
+")).
+Eval vm_compute in ("<<<M3264>>>" ++ check (runes_of_ascii "// top
+options
+    // c0
+{
+    // c1
+chars
+    // c2
+=
+    // c3
+""a\\""
+    // c4
+}
+    // c5
+packet
+    // c6
+Z9_
+    // c7
+{
+    // c8
+match
+    // c9
+BodyLength
+    // c10
+as
+    // c11
+roots
+    // c12
+{
+    // c13
+""" ++ [28040; 24687]%N ++ runes_of_ascii """
+    // c14
+:
+    // c15
+falsey
+    // c16
+,
+    // c17
+00
+    // c18
+:
+    // c19
+u128
+    // c20
+0
+    // c21
+:
+    // c22
+len
+    // c23
+,
+    // c24
+007
+    // c25
+:
+    // c26
+f32a
+    // c27
+}
+    // c28
+,
+    // c29
+@tag(
+    // c30
+3
+    // c31
+)
+    // c32
+@calculatedFrom(
+    // c33
+""`tick`""
+    // c34
+)
+    // c35
+@leftPad
+    // c36
+(
+    // c37
+' '
+    // c38
+)
+    // c39
+string
+    // c40
+asx
+    // c41
+,
+    // c42
+string
+    // c43
+u
+    // c44
+@lengthOf(
+    // c45
+options1
+    // c46
+)
+    // c47
+,
+    // c48
+float32
+    // c49
+i64_
+    // c50
+@calculatedFrom(
+    // c51
+""a\""b""
+    // c52
+)
+    // c53
+,
+    // c54
+}
+    // c55
+")).
+Eval vm_compute in ("<<<M3760>>>" ++ check (runes_of_ascii "packet uint8x {
+    @lengthOf(Pad)
+    Foo,
 }
 
-root packet Logon {
-    i64_ @lengthOf(int) `// not a comment`,
-    @tag(3)
-    match lengthOf as pack {
-        42 : T,
-        255 : int,
-        007 : tag,
-        4294967296 : _x,
-    },
-    @calculatedFrom(""packet"")
-    @tag(10)
-    @tag(65535)
-    zchar[65535] roots,
-    @rightPad(' ')
-    @tag(7)
-    // @lengthOf(
-    string Packet @lengthOf(u) `tab	here`,
+root packet Foo {
+    char[] i64_ @calculatedFrom(""a	b"") `u8 x,`,
+    zchar[3] tag @lengthOf(tag),
+    @lengthOf(falsey)
+    options1 @lengthOf(repeatCount),
+    string matchKey `crlf
+    line`,
 }
 
 packet metadata {
+    //	t
+    uint32 i8i8,
 }
 
-root packet x {
-}")).
-Eval vm_compute in ("<<<M507>>>" ++ check (runes_of_ascii "
-packet _x { repeat o int , match
-int
-    as Logon{
-""packet"" :
-// a // b
-// packet A { u8 x, }
-string_ },
-@leftPad ( '0'
-) zchar[
-1 ] asx , }// @lengthOf(
-packet leftPad { }	root
-packet i8i8{
-    @calculatedFrom(""it's"" ) _x
-    len// " ++ [27880; 37322]%N ++ runes_of_ascii "
-`crlf
-line`, } root
-    packet rootA { char[]
-    rootA @lengthOf( leftPad
-    )`u8 x,` , match
-falsey
-as calculatedFrom {42:
-    Foo }
-,
-    repeat Z9_
-    {
-    uint16 _x// " ++ [128512]%N ++ runes_of_ascii " emoji
-`doc` , zchar[ // `tick` ""quote"" 'q'
-42// " ++ [128512]%N ++ runes_of_ascii " emoji
-]
-u8x ,repeat
-zchar[
-// @lengthOf(
-// c
-42
-/// triple
-// " ++ [27880; 37322]%N ++ runes_of_ascii "
-]Z9_	`// not a comment`, } // trailing space 
-,
-string//
-T,u8x i8i8, @calculatedFrom( ""CRC32"")  u64 zchar,
-//
-// " ++ [128512]%N ++ runes_of_ascii " emoji
-}
-packet Packet {repeat
-    Z9_ int ,
-int16 asx`// not a comment`
-,@lengthOf(	options1
-)
-repeat int8
-    As`" ++ [233]%N ++ runes_of_ascii "`// @lengthOf(
-, @leftPad ( '\x00'
-// " ++ [27880; 37322]%N ++ runes_of_ascii "
-//	t
-)
-o { repeat
-    //
-    rootA
-`crlf
-line`
-    //x
-    ,
-    Packet, }  , @calculatedFrom( ""`tick`""
-    //
-    ) @lengthOf( T
-)
-    //	t
-    repeatCount
-_x  ,
-_x{ i16 x_y_z @lengthOf(a1
-) `
-`,}
-// packet A { u8 x, }
-//
-,
-    }")).
-Eval vm_compute in ("<<<M3509>>>" ++ check (runes_of_ascii "options {
-    StringPrefixLenType = u8;
-    ArrayPrefixLenType = u8;
-    FixedStringPadFromLeft = true;
-    FixedStringPadChar = ' ';
-}
-packet Logout {
-    repeat string Px,
-    repeat string seqNo,
-    InMsgkind64 {
-        uint16 OrderId,
-        char[] count,
-        repeat i32 venue,
-    },
-}
-packet Heartbeat {
-    float32 tag7,
-    repeat InPrice50 {
-        repeat char[5] lastPx,
-        InRef42 {
-            u8 pad0,
-        },
-        uint32 Acct,
-        repeat Logout,
-        repeat char[5] Qty,
-    },
-    repeat InSeqno30 {
-        repeat Logout,
-    },
-    @leftPad('0') char[12] Acct,
-    char[] Side2,
-    repeat string msgKind,
-}
-packet Ack {
-    Heartbeat,
-    char[8] seqNo,
-    float64 clOrdID,
-}
-packet Trade {
-    char[] OrderId,
-    f64 Side2,
-    zchar[8] f1,
-    string Qty,
-    float64 seqNo,
-    repeat Logout,
-}
-packet Order {
-    f32 OrderId,
-    repeat u8 x,
-    Ack,
-    zchar[7] Note,
-}
-root packet Logon {
-    @rightPad('\x00') char[9] f1,
-}
-")).
-Eval vm_compute in ("<<<M3771>>>" ++ check (runes_of_ascii "//	t
 root packet Header {
-    @tag(255)
-    float32 msg_type @lengthOf(u8x) `" ++ [28040; 24687; 31867; 22411]%N ++ runes_of_ascii "`,
-    @calculatedFrom(""a	b"")
-    repeat string i64_,
-    repeat x_y_z {
-        //x
-        asx,
-        string i8i8 @lengthOf(float),
-        uint16 As @calculatedFrom(""x y""),
-    },//
-    @lengthOf(i8i8)
-    msg_type {
-        match tag as Z9_ {
-            [1, ""packet""] : Z9_,
-            [4294967296] : options1,
-            ""\n"" : Pad,
-        },
-        match calculatedFrom as packetx {
-            0123456789 : metadata,
-            [""" ++ [233]%N ++ runes_of_ascii "t" ++ [233]%N ++ runes_of_ascii """] : T,
-            1 : i64_,
-        },//	t
-        match BodyLength as chars {
-            0 : metadata,
-            """ ++ [128512]%N ++ runes_of_ascii """ : u128,
-            ""a\""b"" : calculatedFrom,
-            0 : As,
-            """ ++ [128512]%N ++ runes_of_ascii """ : x_y_z,
-            7 : f32a,
-        },
-        u trueish,
-    },
-}
-
-MetaData charz {
-    i32 x `u8 x,`,
-    char[] calculatedFrom `two words`,
-    int8 packetx `crlf
+    @lengthOf(_x)
+    @lengthOf(A)
+    metadata tag `
+    `,
+    x_y_z `tab	here`,
+    Pad,
+    @calculatedFrom(""" ++ [128512]%N ++ runes_of_ascii """)
+    //x
+    repeat string f32a `crlf
     line`,
+    string packetx @calculatedFrom(""a\\""),
 }
 
-MetaData charz {
-}")).
-Eval vm_compute in ("<<<M3698>>>" ++ check (runes_of_ascii "
+packet u8x {
+    pack,
+    @calculatedFrom(""// no comment"")
+    packetx,
+    match options1 as chars {
+        ""1"" : Logon,
+        7 : trueish,
+    },
+    match asx as Logon {
+        [3] : _x,
+        [""// no comment"", 7, """ ++ [233]%N ++ runes_of_ascii "t" ++ [233]%N ++ runes_of_ascii """, ""it's"", 1] : i8i8,
+        // " ++ [27880; 37322]%N ++ runes_of_ascii "
+        [""1""] : T,
+    },
+}// a // b")).
+Eval vm_compute in ("<<<M3667>>>" ++ check (runes_of_ascii "MetaData msg_type {
+    string charz,
+    crc u8x,
+    u16 x_y_z `u8 x,`,
+    i64 zchar,
+}
 
-  root 
-//
-    	// `tick` ""quote"" 'q'
-    packet 
-lengthOf  {
-repeat
-char[] asx`// not a comment` // trailing space 
-  ,
-	lengthOf
-
-{
-
-string
-
-options1
-
-,
-    char[]
-    A@calculatedFrom(
-    ""\n"" ) ,
-int16 trueish
-    ,
-    }	,
-
-    repeat
-int16 stringy
-,
-
-string
-	Logon
-
-    `{ , }`  , @lengthOf(
-
-    metadata	)  match
-trueish	as	Foo{ 00
-: 
-T 
-,7: Z9_  ,
-	}
-,
-
-string_ a1	`" ++ [28040; 24687; 31867; 22411]%N ++ runes_of_ascii "` // packet A { u8 x, }
-,
-} packet 
-zchar{@calculatedFrom(  ""x y""//x
-    )repeatCount`
-`
-	,
-	match 
-    //
-	stringy
-
-as
-	u
-
-{	255// `tick` ""quote"" 'q'
-	: charz
-} ,zchar[
-
-0123456789
-
-] 
-// a // b
-
-Z9_
-@lengthOf( crc ) 
-`it's`
-, @leftPad
-(
-    '\x00'  )	zchar[
-0
-	] rootA@calculatedFrom(
-""CRC32""
-
-    ) 
-, @lengthOf(
-leftPad	) 
-    // packet A { u8 x, }
-    Foo 
-@calculatedFrom(""{,}"" 
-) ,	uint32	Foo `// not a comment`
-,f32
-
-float	, repeat matchKey  ,  Logon @lengthOf(
-rootA) 
-`" ++ [28040; 24687; 31867; 22411]%N ++ runes_of_ascii "`,
-	}
-")).
-Eval vm_compute in ("<<<M1133>>>" ++ check (runes_of_ascii "  packet
-    stringy	{
-    @tag(//	t
-1) Logon @lengthOf( roots
 // @lengthOf(
-// " ++ [27880; 37322]%N ++ runes_of_ascii "
-) ,
-    @tag(4294967296
-) repeat
-leftPad
-    { match	metadata as // trailing space 
-u8x {
-4294967296: // " ++ [128512]%N ++ runes_of_ascii " emoji
-pack ""CRC32""	: f32a ,
-}  , } ,
-match Logon
-as float{ [ ""// no comment"" // packet A { u8 x, }
-] :
-    roots 0123456789 :Pad , } , repeat Foo
-//
-// c
-{ matchKey { zchar[ 4294967296] repeatCount
-    `{ , }`	, }
-,uint64 int @lengthOf( float ) ,
-match // packet A { u8 x, }
-asx as trueish { ""// no comment"" //	t
-:
-    lengthOf	,10
-    :As // `tick` ""quote"" 'q'
-, 3
-:
-calculatedFrom ,
-    [ 7 ,4294967296
-    ]
-:	leftPad,
-4294967296 :  BodyLength
-    ,} , },
-i8 Packet ,@calculatedFrom( """ ++ [128512]%N ++ runes_of_ascii """ )
-    Logon o , repeat u64
-asx , @calculatedFrom(
-""a\""b"" ) repeat
-    int8 MetaDataX ,
-@calculatedFrom( ""abc"" ) uint64 // trailing space 
-tag
-`line1
-line2`  ,	}
-")).
-Eval vm_compute in ("<<<M453>>>" ++ check (runes_of_ascii "packet chars{ }	options
-// a // b
-// packet A { u8 x, }
-{	calculatedFrom
-=i8;}
-packet x { @tag( 255
-    ) // `tick` ""quote"" 'q'
-match u8x as leftPad { [
-1 ,
-    ""\n"",""a\""b""]
-    : stringy } ,
-float @calculatedFrom(
-    ""\n"" )
-`
-`
-    ,
-@calculatedFrom( // @lengthOf(
-""{,}""
-) repeat char[ 0123456789
-] Header
-    , body {
-f32a
-    `" ++ [28040; 24687; 31867; 22411]%N ++ runes_of_ascii "`
-, char[
-10 ] Pad
-@lengthOf( packetx )`line1
-line2`
-    , match Header as crc {[ 7] : roots
-,4294967296 : Header , 255:
-    // " ++ [27880; 37322]%N ++ runes_of_ascii "
-    crc,	00
-:
-    Z9_ ,255 :Z9_ ,
-[
-    42 ,
-    255
-    ] : repeatCount
-,	} , leftPad { repeat
-asx  `" ++ [28040; 24687; 31867; 22411]%N ++ runes_of_ascii "` // " ++ [27880; 37322]%N ++ runes_of_ascii "
-, float
-, }, }
-    , @leftPad // a // b
-(
-) @lengthOf(Foo  )@calculatedFrom(  ""abc"" ) uint64 BodyLength , @tag( // " ++ [128512]%N ++ runes_of_ascii " emoji
-65535 ) i64 u8x`it's`
-,	@tag( 0 )/// triple
-crc { zchar[65535 ]u `tab	here` ,	} ,// a // b
+packet T {
+    @calculatedFrom(""a\\"")
+    uint16 chars @calculatedFrom(""x y"") `
+    `,
 }
-")).
-Eval vm_compute in ("<<<M3864>>>" ++ check (runes_of_ascii "root packet options1 {
+
+packet pack {
+}
+
+options {
+}
+
+packet trueish {
+    // trailing space 
+    @calculatedFrom(""abc"")
+    match chars as lengthOf {
+        [4294967296] : a1,
+        [
+            ""CRC32"", 7, ""1"", 4294967296, ""a\\"",
+            0, 65535, ""{,}""
+        ] : a1,
+    },
+    string lengthOf `" ++ [28040; 24687; 31867; 22411]%N ++ runes_of_ascii "`,
+    @lengthOf(x)
+    match charz as a1 {
+        255 : Logon,
+    },
+    @calculatedFrom(""a	b"")
+    @tag(00)
+    @lengthOf(zchar)
+    body @lengthOf(msg_type),
+    MetaDataX @lengthOf(len) `a\`,
+    @rightPad('\x00')
     @lengthOf(Packet)
-    //x
-    //	t
-    repeat chars {
-        repeatCount u128,
-        match u as BodyLength {
-            [65535] : packetx,
-            3 : zchar,
-            255 : roots,
-            """ ++ [233]%N ++ runes_of_ascii "t" ++ [233]%N ++ runes_of_ascii """ : Header,
-        },
-        i64 Packet,
-        char[] uint8x @calculatedFrom(""// no comment"") `crlf
-                line`,
-    },
-    string trueish,
-    @leftPad(' ')
-    i8i8 {
-        /// triple
-        float64 T @lengthOf(leftPad),// @lengthOf(
-        u128 `" ++ [233]%N ++ runes_of_ascii "`,
-        lengthOf,// a // b
-        matchKey,
-    },
-    repeat char[1] MetaDataX `a\`,
-    @calculatedFrom(""1"")
-    string chars `it's`,
-    char[] calculatedFrom @lengthOf(calculatedFrom) `doc`,
-    rootA _x `" ++ [28040; 24687; 31867; 22411]%N ++ runes_of_ascii "`,
+    string u128 `u8 x,`,
+    packetx @lengthOf(o),
 }
-
-MetaData calculatedFrom {
-    u tag `
-        `,
-}")).
-Eval vm_compute in ("<<<M3552>>>" ++ check (runes_of_ascii "// top
-options
-    // c0
-{ LittleEndian
-    // c2
-= // c3
-true
-    // c4
-;
-    // c5
-} // c6
-packet // c7a
-  // c7b
-Logon
-    // c8
-{ // c9a
-  // c9b
-u8
-    // c10
-x
-    // c11
-, // c12
-string
-    // c13
-user , // c15a
-  // c15b
-} // c16a
-  // c16b
-packet // c17
-Logout // c18a
-  // c18b
-{
-    // c19
-u16
-    // c20
-reason , } // c23a
-  // c23b
-packet Empty // c25a
-  // c25b
-{ // c26
+// @lengthOf(")).
+Eval vm_compute in ("<<<M171>>>" ++ check (runes_of_ascii "root  packet body { /// triple
+crc
+x_y_z `say ""hi""` , float// `tick` ""quote"" 'q'
+_x , T// " ++ [128512]%N ++ runes_of_ascii " emoji
+`a\`
+    // " ++ [27880; 37322]%N ++ runes_of_ascii "
+    , uint64 MetaDataX , repeat zchar[ 7 ]
+    calculatedFrom `` , uint32 len
+// c
+// @lengthOf(
+`a\` , } /// triple
+options{
+} packet	a1{ @tag( 1 )Logon @lengthOf(	options1) `{ , }` , @calculatedFrom( ""abc"")
+    /// triple
+    f32a // " ++ [27880; 37322]%N ++ runes_of_ascii "
+{leftPad { // trailing space 
+o matchKey
+``  , }
+, int32 int
+// c
+// @lengthOf(
+``
+, char[ 007 ]
+    zchar
+@lengthOf( Z9_ ) `tab	here`
+    , char[ 1 ] falsey ,  } ,
+    repeat int16 Z9_ , match	zchar as zchar{ ""packet"" :	x_y_z	,
+[3
+    // " ++ [128512]%N ++ runes_of_ascii " emoji
+    , ""CRC32"", 0,""CRC32""//
+, 0123456789 ]
+: len
+, [0 ,	4294967296
+] :
+Packet
+, [65535
+] : options1 [ 10]//	t
+: u128 , } , // packet A { u8 x, }
 }
-    // c27
-root // c28a
-  // c28b
-packet // c29a
-  // c29b
-Frame
-    // c30
-{ u16
-    // c32
-MsgType ,
-    // c34
-@lengthOf(
-    // c35
-Body ) // c37a
-  // c37b
-u8 // c38
-BodyLen // c39a
-  // c39b
-,
-    // c40
-u8
-    // c41
-flags , Logon
-    // c44
-Body
-    // c45
-, // c46a
-  // c46b
-u32 trailer
-    // c48
-, // c49a
-  // c49b
-} // c50a
-  // c50b
 ")).
-Eval vm_compute in ("<<<M3605>>>" ++ check (runes_of_ascii "// " ++ [128512]%N ++ runes_of_ascii " emoji
-MetaData int {
-    As options1,
-    char[42] a1,
-    int32 Foo `// not a comment`,
-    int32 float,
-    zchar[4294967296] uint8x `// not a comment`,
-    char[] Pad,
-}
-
-root packet MetaDataX {
-    @tag(1)
-    u128 {
-        repeatCount Packet,
-    },
-    A,
-    @lengthOf(u128)
-    @leftPad()
-    @leftPad('\x00')
-    repeat i16 uint8x `u8 x,`,
-    int16 float @calculatedFrom(""abc"") `" ++ [28040; 24687; 31867; 22411]%N ++ runes_of_ascii "`,
-    body @lengthOf(_x),
-    @leftPad('0')
-    //x
-    match roots as Header {
-        ""{,}"" : Packet,
-        0123456789 : pack,
-        00 : matchKey,
-        [4294967296, """ ++ [28040; 24687]%N ++ runes_of_ascii """] : string_,
-    },
-}
-
-packet charz {
-    // trailing space 
-    char[00] u8x,
-    i32 chars,
-}
-
-packet matchKey {
-}")).
-Eval vm_compute in ("<<<M1306>>>" ++ check (runes_of_ascii "root packet a1
-{@leftPad ()repeat
-pack {repeat
-Header`doc`
-, } , } packet u {//x
-@tag( 65535) @tag( 007	)
-    repeat	uint8x {
-    match Packet as trueish {
-    [ ""1""
-    , 255 , //	t
-65535
-]: trueish ,// @lengthOf(
-""" ++ [233]%N ++ runes_of_ascii "t" ++ [233]%N ++ runes_of_ascii """ :
-    chars
-, """ ++ [233]%N ++ runes_of_ascii "t" ++ [233]%N ++ runes_of_ascii """:
-stringy	""// no comment"" : body
-,""\" ++ [233]%N ++ runes_of_ascii """ : body , } , repeat a1 options1 //	t
-, match	uint8x as Header  { [
-    ""packet""
-    ]
-    : uint8x
-, 10 :
-BodyLength
-,[	007
-]: Foo ,	007 :	T , ""\n"" :
-asx }, char[
-42
-]
-As
-, } , @calculatedFrom(
-""abc"" ) @rightPad // " ++ [128512]%N ++ runes_of_ascii " emoji
-( ) matchKey ``
-    , Logon
-o ,
-    @calculatedFrom(  ""`tick`""
-) repeat a1{ // c
-int8
-    len
-,	}
-// " ++ [27880; 37322]%N ++ runes_of_ascii "
-// `tick` ""quote"" 'q'
-, }
-// trailing space 
-")).
-Eval vm_compute in ("<<<M3490>>>" ++ check (runes_of_ascii "// top
-packet // c0
-MDSnapshotZZ { // c2a
-  // c2b
-u8 a
-    // c4
-, } // c6
-packet // c7a
-  // c7b
-OrderACK // c8a
-  // c8b
-{ u16 b
-    // c11
-, // c12a
-  // c12b
-} // c13
-packet
-    // c14
-HTTPServerInfo {
-    // c16
-string s
-    // c18
-, } root // c21a
-  // c21b
-packet // c22
-FIXMsg // c23
-{ // c24
-u8 // c25
-KType , MDSnapshotZZ , repeat // c30a
-  // c30b
-OrderACK
-    // c31
-, // c32a
-  // c32b
-match
-    // c33
-KType // c34a
-  // c34b
-as
-    // c35
-Body // c36
-{ 1 : // c39
-HTTPServerInfo // c40
-, // c41
-2 // c42
-: // c43
-OrderACK // c44a
-  // c44b
-, // c45
-} // c46a
-  // c46b
-, // c47a
-  // c47b
-} // c48a
-  // c48b
-")).
-Eval vm_compute in ("<<<M4491>>>" ++ check (runes_of_ascii "packet
-
-BodyLength
-
-{ @rightPad 	 // packet A { u8 x, }
-		(
-    )
-i32
-
-    packetx
-    @lengthOf(
-    leftPad
-
-)	,
-
-@lengthOf( MetaDataX
-	) leftPad ,
-	_x{
-match zchar
-
-    as zchar
-{
-[ // `tick` ""quote"" 'q'
-    ""a\\""]
-
-    : crc 
-""" ++ [28040; 24687]%N ++ runes_of_ascii """ : Foo,1
-
-    :
-	trueish 
-,
-	42	: rootA ,
-    [4294967296
+Eval vm_compute in ("<<<M508>>>" ++ check (runes_of_ascii "packet Header {
+    @rightPad(  '0' // `tick` ""quote"" 'q'
+)
+uint8x @calculatedFrom( ""a	b""
+)  , char[]u128
     // @lengthOf(
-  // `tick` ""quote"" 'q'
-    ] 
-    //	t
-:float 
-	// " ++ [128512]%N ++ runes_of_ascii " emoji
-    ""a\\""  :
-Foo
+    @calculatedFrom( ""// no comment"" ) , @tag(//
+0123456789
+) char[ 255
+]	lengthOf@calculatedFrom(
+"""" )
+    `" ++ [28040; 24687; 31867; 22411]%N ++ runes_of_ascii "` ,x_y_z
+, i32
+    x_y_z ``
+    ,repeat  char[007] rootA , float32 msg_type @calculatedFrom(""a	b"" )`{ , }`
+,// " ++ [27880; 37322]%N ++ runes_of_ascii "
+@calculatedFrom(""x y"" ) @tag(255
+    // @lengthOf(
+    )
+    match i8i8 as A {"""" : f32a
+,
+} , matchKey {MetaDataX Header , repeatCount `say ""hi""`
+    ,	char[ 0] MetaDataX
+@lengthOf( len
+    )`" ++ [233]%N ++ runes_of_ascii "`// @lengthOf(
 ,
 }
+    // `tick` ""quote"" 'q'
+    , zchar[7]pack @calculatedFrom( ""\n"" ) , }packet // packet A { u8 x, }
+uint8x {
+uint64 uint8x @calculatedFrom( ""abc""
+    )
+, }
+")).
+Eval vm_compute in ("<<<M429>>>" ++ check (runes_of_ascii "options
+    { Header
+    //
+    =
+    7 // trailing space 
+;
+Z9_ =true
+//
+// trailing space 
+;  f32a = false Packet
+    // c
+    = true
+    ; }
+packet matchKey { char[] Foo
+`crlf
+line` ,
+}
+    packet // " ++ [27880; 37322]%N ++ runes_of_ascii "
+Pad{ repeat  char[ 7]crc , calculatedFrom , @leftPad
+    ()
+//x
+// " ++ [128512]%N ++ runes_of_ascii " emoji
+i16 BodyLength
+, @tag(// @lengthOf(
+42 // packet A { u8 x, }
+) match rootA  as uint8x {""a	b"" :	As, }
 ,
+    @calculatedFrom( """"
+    ) repeat x`" ++ [233]%N ++ runes_of_ascii "`	,  @tag(
+007 )
+    Packet Pad,
+uint64
+u8x`tab	here` ,
+    asx {packetx MetaDataX
+,
+repeat _x{ asx
+{ string rootA `line1
+line2` , // a // b
+}
+, } ,
+} // " ++ [128512]%N ++ runes_of_ascii " emoji
+, @tag( 007
+    ) i64
+i64_ ,// " ++ [27880; 37322]%N ++ runes_of_ascii "
+@lengthOf(
+    Z9_
+    ) char[] asx @lengthOf( body )
+    ,
+}
+
+")).
+Eval vm_compute in ("<<<M4376>>>" ++ check (runes_of_ascii "packet 
+repeatCount
+	{ match  BodyLength as body	{
+
+    255  : As  ,
+
+}  ,_x @calculatedFrom(  ""x y""
+)
+`" ++ [233]%N ++ runes_of_ascii "`
+,@calculatedFrom(""1""	) // @lengthOf(
+
 repeat
 
-    float
-leftPad, uint8x
-	i8i8 ,char[255
-] As 	 // trailing space 
-	,	} ,
-    char[ 
-  // " ++ [27880; 37322]%N ++ runes_of_ascii "
-4294967296 ]uint8x 
-`u8 x,`
-	,  @leftPad  ()
-	float32 body
-    `two words`,
-    }")).
-Eval vm_compute in ("<<<M1255>>>" ++ check (runes_of_ascii "packet repeatCount { } root
-    packet x {// " ++ [128512]%N ++ runes_of_ascii " emoji
-match body as pack { 10
-    :charz} , @leftPad
-    ( '\x00'
-    // c
-    ) @lengthOf( _x ) string//x
-f32a
-// @lengthOf(
-// `tick` ""quote"" 'q'
-@calculatedFrom(
-""1"" )
-/// triple
-// `tick` ""quote"" 'q'
-, @tag(4294967296 ) @leftPad
-    ( ) string
-    Logon
-,int64
-    i8i8`it's` ,
-} packet
-    Logon
-{
-len
-    // trailing space 
-    {
-repeat i32 float //
+uint32
+
+A
+,zchar[ 00 ]x_y_z
+
+, @rightPad
+(  '0' )	@leftPad (
+' ' //x
+	)  i32
+
+    lengthOf  , repeat
+
+    // packet A { u8 x, }
+	  //	t
+i64  len
+
+`" ++ [28040; 24687; 31867; 22411]%N ++ runes_of_ascii "`  ,@calculatedFrom(
+	""packet"" )stringy
+float
 ,
-} ,
-    @lengthOf( Z9_
-) repeat lengthOf  msg_type, string_ //
-@calculatedFrom(""{,}""
-) ,
-@tag(255
-    ) char[4294967296 //	t
-]  pack
-`say ""hi""`
-, }
-")).
-Eval vm_compute in ("<<<M19>>>" ++ check (runes_of_ascii "//
+@calculatedFrom(
+
+    ""{,}"" )
+    repeat	char[ 7 ]u8x `two words`
+,
+	}	options  { 
+int
+= ""a\""b"" ;
+    Header =true
+	;
+
+trueish
+    = zchar[
+
+    00 // packet A { u8 x, }
+    	]
+    ; falsey
+=
+	false
+
+    ;
+    Pad= 
+    //	t
+// `tick` ""quote"" 'q'
+zchar[
+    1 ] }//
+
 packet
-/// triple
-// a // b
-chars {int16 int ,	match calculatedFrom as
-    zchar { 4294967296:
-i8i8 , [
-""// no comment"" ] :stringy, ""a\""b"" :	u128 007
+	T
+{
+
+    }
+")).
+Eval vm_compute in ("<<<M333>>>" ++ check (runes_of_ascii "// a // b
+packet matchKey{
+@rightPad( // c
+' ' // trailing space 
+)
+@tag(007) @lengthOf( float )
+repeat	packetx ,
+    // @lengthOf(
+    @calculatedFrom(""a\""b"" )/// triple
+@tag(
+    255 )@tag( 00 )
+    Pad
+    @calculatedFrom(
+""" ++ [28040; 24687]%N ++ runes_of_ascii """ ) `{ , }` , } root
+packet
+string_
+    { repeat Logon
+//
+//x
+{ match Z9_ as float {
+""packet""
+: packetx
+    , [
+""CRC32"" , 42 // a // b
+,	00
+    // `tick` ""quote"" 'q'
+    , ""packet"" //
+] : Foo, """ ++ [28040; 24687]%N ++ runes_of_ascii """ : BodyLength , [
+""CRC32""] : x_y_z	,
+    00 :
+    packetx, 7 : rootA , } ,
+}
+, repeat
+    // c
+    metadata { u16 Logon `
+` ,
+    matchKey @calculatedFrom(
+"""" //	t
+) , repeat// c
+char[]leftPad,
+} , }
+")).
+Eval vm_compute in ("<<<M4091>>>" ++ check (runes_of_ascii "root packet Logon {
+    @tag(3)
+    // @lengthOf(
+    float64 options1 @calculatedFrom(""1""),
+    match roots as MetaDataX {
+        0123456789 : As,
+        //	t
+        [
+            0, ""1"", 0123456789, ""CRC32"", 7,
+            """ ++ [128512]%N ++ runes_of_ascii """, ""CRC32""
+        ] : x,
+    },
+    @tag(007)
+    string calculatedFrom @calculatedFrom(""a\\"") `two words`,
+    @lengthOf(uint8x)
+    trueish `{ , }`,// trailing space 
+}// @lengthOf(
+
+root packet rootA {
+    match As as As {
+        // `tick` ""quote"" 'q'
+        10 : MetaDataX,
+        ""{,}"" : body,
+    },
+    @tag(4294967296)
+    _x @lengthOf(roots),
+    packetx ``,
+}// c")).
+Eval vm_compute in ("<<<M3678>>>" ++ check (runes_of_ascii "MetaData Header {
+}
+
+root packet chars {
+    char[00] MetaDataX `u8 x,`,
+    repeat Foo stringy,
+    @lengthOf(u8x)
+    char[] Foo,
+    match Header as leftPad {
+        [""abc"", 255, """ ++ [128512]%N ++ runes_of_ascii """, """"] : charz,
+        007 : uint8x,
+        0 : asx,
+        """" : MetaDataX,
+    },
+    char[] uint8x,
+    @tag(1)
+    i8i8 {
+        x Packet `doc`,
+        zchar[4294967296] metadata @calculatedFrom(""a\\"") `" ++ [233]%N ++ runes_of_ascii "`,
+        zchar[10] crc @lengthOf(Foo) `crlf
+        line`,
+    },
+}
+
+MetaData msg_type {
+    char[] calculatedFrom `line1
+    line2`,
+}// `tick` ""quote"" 'q'")).
+Eval vm_compute in ("<<<M566>>>" ++ check (runes_of_ascii "packet rootA { } // " ++ [27880; 37322]%N ++ runes_of_ascii "
+packet MetaDataX
+    // packet A { u8 x, }
+    { @leftPad (	'0' )@calculatedFrom( ""`tick`"" ) pack @calculatedFrom( ""1""
+) ,f32a {
+a1 {lengthOf	{ repeat  uint8 charz	`crlf
+line` ,
+} , match roots	as
+    Packet {
+7 : Foo  , ""\" ++ [233]%N ++ runes_of_ascii """
+    // c
+    : metadata , ""a	b"" ://
+trueish
 // @lengthOf(
 //x
-: msg_type , 65535
-    : a1 ,""""	: u128} ,
-Packet @lengthOf( f32a )
-`it's` , int16 stringy`u8 x,` , roots @lengthOf( trueish
-) , match charz as A
-    {	10
-    :A ,
-} ,  string
-    Header@calculatedFrom( ""`tick`"" )`doc` , }MetaData	roots { asx metadata,	int64 MetaDataX , char[  42 ] o `// not a comment` ,
-    f32 packetx ,rootA As `it's` , msg_type tag
-, }
-
+, 0123456789 :
+Z9_,  [
+    4294967296 , ""packet""
+,
+"""" /// triple
+, 3 , """ ++ [233]%N ++ runes_of_ascii "t" ++ [233]%N ++ runes_of_ascii """ ] : pack
+    10 : a1, }	, u16 u128 // " ++ [128512]%N ++ runes_of_ascii " emoji
+`" ++ [28040; 24687; 31867; 22411]%N ++ runes_of_ascii "` , } ,}
+    ,zchar[ 00]
+_x @calculatedFrom( ""x y"" ) `doc`
+    ,  } packet
+pack { }
 ")).
 Eval vm_compute in ("<<<M1109>>>" ++ check (runes_of_ascii "root packet	T {
     @calculatedFrom( ""it's"") repeat
@@ -1420,213 +1559,277 @@ char[] pack @calculatedFrom( ""a\""b"" )
 `say ""hi""`	,@lengthOf( rootA )
 @tag( 4294967296  ) len  a1 , @tag(
     7 ) u16 T ,} //	t")).
-Eval vm_compute in ("<<<M216>>>" ++ check (runes_of_ascii "packet repeatCount
-{ f64 // @lengthOf(
-_x
-@lengthOf( zchar
-) ,
-Z9_ , calculatedFrom @lengthOf(rootA
+Eval vm_compute in ("<<<M3941>>>" ++ check (runes_of_ascii "
+
+  packet 
+Pad{ @lengthOf(len
+	) zchar[
+
+    10
+	] int `a\`
+	,@tag(
+	007
 )
-    `{ , }` ,} packet a1{
-    /// triple
-    chars
-@lengthOf(
-tag ), metadata
-    , }packet
-Packet
-    { //x
-@tag( 65535 )  @leftPad ( )@tag( 42)	char[ 0123456789]
-    /// triple
-    float @calculatedFrom(""CRC32"" )
-    `tab	here` , repeat int8 string_, u8
-x_y_z
-`crlf
-line`, // @lengthOf(
-@tag( 0123456789
-)zchar[
-1
-]	lengthOf @calculatedFrom( ""it's"" ) , // " ++ [27880; 37322]%N ++ runes_of_ascii "
-}
-")).
-Eval vm_compute in ("<<<M3537>>>" ++ check (runes_of_ascii "options{
-LittleEndian 
-=
 
-false ;
+    string leftPad
+@lengthOf(string_)	,
+char[
+	0123456789
+	]
 
-    StringPrefixLenType 
-=
-
-    u8
-;
-
-ArrayPrefixLenType	=
-
-u16
-	; FixedStringPadFromLeft
-    = false
-
-;
-    } 
-packet Heartbeat 
+len
+	,	u32
+    crc	`two words` ,}root packet	u128 
 {
 
-u8
-seqNo
-    ,
-@rightPad (  '\x00'  ) char[	8
-	]
-    x, }
+    zchar[ 00
+]A
+
+@calculatedFrom(""\" ++ [233]%N ++ runes_of_ascii """
+) 
+`line1
+line2` ,
+
+    @tag( 10 )
+	char[]len
+`" ++ [28040; 24687; 31867; 22411]%N ++ runes_of_ascii "` , @leftPad
+
+(
+	)  @lengthOf(
+A 
+) match  crc as msg_type{7 
+:  trueish
+},
+    @leftPad
+( '0'
+    )f32a 
+@calculatedFrom(""// no comment""
+
+)// @lengthOf(
+  `crlf
+line`
+
+,  }
+
+")).
+Eval vm_compute in ("<<<M1229>>>" ++ check (runes_of_ascii "  root
+packet
+zchar
+{
+    _x { uint32
+packetx @lengthOf( pack) ,
+    char[ 10 ] MetaDataX
+`line1
+line2`, char[] leftPad
+, } ,@lengthOf(
+u8x
+    ) repeat u128 _x,	}packet leftPad{char  repeatCount
+, } // `tick` ""quote"" 'q'
+packet pack { @lengthOf(// " ++ [128512]%N ++ runes_of_ascii " emoji
+Header )
+char[ 65535 ]
+    u128	@calculatedFrom(// " ++ [128512]%N ++ runes_of_ascii " emoji
+""" ++ [233]%N ++ runes_of_ascii "t" ++ [233]%N ++ runes_of_ascii """
+)`// not a comment` , @tag( 0123456789
+)
+    @leftPad ( ' '	) @calculatedFrom( ""a	b"" )  repeat int Logon `// not a comment` ,
+    }")).
+Eval vm_compute in ("<<<M3576>>>" ++ check (runes_of_ascii "packet asx {
+    repeat falsey {
+        match lengthOf as T {
+            [""\" ++ [233]%N ++ runes_of_ascii """, 42, 1, ""// no comment"", """ ++ [28040; 24687]%N ++ runes_of_ascii """] : x,
+            4294967296 : matchKey,
+            7 : roots,
+            [
+                0123456789, ""// no comment"", 0123456789, 3, 0123456789,
+                65535, ""a\\"", ""a	b""
+            ] : metadata,
+            [65535] : asx,
+            [""a	b"", ""a\\"", 4294967296] : x,
+        },
+    },
+    @leftPad()
+    falsey T,
+}")).
+Eval vm_compute in ("<<<M4011>>>" ++ check (runes_of_ascii "
+
+  root
+	packet	u128 {
+}
 
 root
 packet
-    Trade
+	charz{  // packet A { u8 x, }
+	@tag( 
+7 
+)
 
-    { 
-repeat
-Heartbeat  ,	float32	OrderId
-	,
-i64 Acct
+    MetaDataX
+, 
+_x
 
-    ,u16
-    Qty,u16 
-clOrdID
+    {
+
+uint32
+
+    As
+	, 
+charz  , 
+}	,
+len
+
+{ int64
+
+u128 
 ,
 
-    match
-	clOrdID as
-Body
-    { 131
-    :Heartbeat ,
-	}  ,u16
-sym
-
-@calculatedFrom(	""CRC32""
-
-)  ,  }
-")).
-Eval vm_compute in ("<<<M373>>>" ++ check (runes_of_ascii "root	packet chars
-{ falsey , uint64 f32a @lengthOf( lengthOf
-) , // c
-}MetaData T{ char[] As ,
-} // trailing space 
-packet
-tag {
-    i64
-    Foo @lengthOf(
-    a1 ),@calculatedFrom(""" ++ [128512]%N ++ runes_of_ascii """ ) @leftPad ( '\x00'// " ++ [128512]%N ++ runes_of_ascii " emoji
+repeat falsey{ x_y_z @lengthOf( 
+asx
 )
-    // a // b
-    @leftPad('\x00')
-repeat Foo MetaDataX , } root
-packet body {
-repeat u64
-    MetaDataX `u8 x,` ,
-@rightPad
-    (
-    ' ' )
-charz	@lengthOf(matchKey ) ,	@calculatedFrom(
-""""
-    )len @lengthOf(tag )
-, }
+
+//	t
+
+	// c
+  	,  // c
+  	}
+,
+    repeatCount {
+    metadata	@calculatedFrom(
+	""\n""
+) `doc` 
+,
+Logon
+	Foo 
+    // trailing space 
+      // " ++ [128512]%N ++ runes_of_ascii " emoji
+,
+    } 	 // " ++ [27880; 37322]%N ++ runes_of_ascii "
+  , 
+float 
+rootA
+	,
+
+} , 
+} 
+	// a // b
 ")).
-Eval vm_compute in ("<<<M646>>>" ++ check (runes_of_ascii "root	packet	options1 {@rightPad (
-' ' ) calculatedFrom @calculatedFrom(""x y"") , @rightPad	()
-match  lengthOf as
-    Logon
-    {""1"" //
-:Z9_,""it's""	:/// triple
-metadata,
-}	, @lengthOf(  o)match
-options1
-as//	t
-As {
-    255 :
-u8x,	""""
-:
-    uint8x , [ 007, ""`tick`"" , 0123456789]
-:
-    // `tick` ""quote"" 'q'
-    T ,""\" ++ [233]%N ++ runes_of_ascii """ : //x
-As 7 // a // b
-: Z9_ ,},
-} MetaData pack	{
-    string As
-    , Header body `two words`, i32
-f32a ,}
-")).
-Eval vm_compute in ("<<<M3535>>>" ++ check (runes_of_ascii "options {
-    LittleEndian = false;
-    StringPrefixLenType = u8;
-    ArrayPrefixLenType = u16;
-    FixedStringPadFromLeft = false;
-}
-packet Heartbeat {
-    u8 seqNo,
-    @rightPad('\x00') char[8] x,
-}
-root packet Trade {
-    repeat Heartbeat,
-    float32 OrderId,
-    i64 Acct,
-    u16 Qty,
-    u16 clOrdID,
-    match clOrdID as Body {
-        131 : Heartbeat,
+Eval vm_compute in ("<<<M3504>>>" ++ check (runes_of_ascii "packet Frame {
+    u8 HK,
+    u8 BK,
+    u8 TK,
+    match HK as Hdr {
+        1 : HdrA,
+        2 : HdrB,
     },
-    u16 sym @calculatedFrom(""CRC32""),
+    match BK as Body {
+        1 : BodyA,
+        2 : BodyB,
+    },
+    match TK as Trl {
+        1 : TrlA,
+    },
+}
+packet HdrA {
+    u8 a,
+}
+packet HdrB {
+    u16 b,
+}
+packet BodyA {
+    u32 c,
+}
+packet BodyB {
+    u64 d,
+}
+packet TrlA {
+    u8 e,
+}
+root packet Msg {
+    Frame,
+    u8 x,
 }
 ")).
-Eval vm_compute in ("<<<M540>>>" ++ check (runes_of_ascii "packet asx {  @tag( 7 ) repeat	u16  _x , //
-@calculatedFrom(""a	b"") string	a1`two words`
-    , A@calculatedFrom( ""abc"")`
-` ,//
-uint16 pack // a // b
-@calculatedFrom(  ""// no comment""
-),
-    // a // b
-    char[] tag  @lengthOf( u128 )
-`
-`
-    , string_
-@lengthOf( chars
-    )	, // " ++ [128512]%N ++ runes_of_ascii " emoji
-match Pad as  packetx {255 : u128 ,  } ,repeat // `tick` ""quote"" 'q'
-calculatedFrom float `
-`	,	}
+Eval vm_compute in ("<<<M4505>>>" ++ check (runes_of_ascii "  options  {  i64_
+=	// a // b
+
+	""it's"" ;  Foo 
+=
+
+    ""\n""	; x_y_z =
+'\x00'; len =
+	'0' }  root
+
+    packet Packet
+	{ @tag(  0 ) match crc
+
+as
+
+A// " ++ [27880; 37322]%N ++ runes_of_ascii "
+{  [
+
+""`tick`""
+,  ""`tick`"" 
+    // @lengthOf(
+	// a // b
+	,  ""packet"" ,	""CRC32"",
+
+    // " ++ [27880; 37322]%N ++ runes_of_ascii "
+  //
+""\n""
+,""a\\""
+
+    ,
+255 
+]:T  // c
+	}// @lengthOf(
+  	, repeat float64 x
+
+, zchar[ 00// `tick` ""quote"" 'q'
+]
+chars	,
+    }//	t
 ")).
-Eval vm_compute in ("<<<M3283>>>" ++ check (runes_of_ascii "// top
-packet // c0
-trueish // c1
-{ // c2
-repeat // c3
-u32 // c4
-MetaDataX // c5
-`doc` // c6
-, // c7
-Header // c8
-{ // c9
-packetx // c10
-o // c11
-`u8 x,` // c12
-, // c13
-} // c14
-, // c15
-@leftPad // c16
-( // c17
-'\x00' // c18
-) // c19
-repeat // c20
-char[ // c21
-0123456789 // c22
-] // c23
-repeatCount // c24
-, // c25
-} // c26
-packet // c27
-Packet // c28
-{ // c29
-} // c30
+Eval vm_compute in ("<<<M3811>>>" ++ check (runes_of_ascii "
+
+  MetaData
+	x
+{ char[]  crc  ,
+    char[
+
+    7 ]
+
+float
+	,
+u64	//	t
+f32a 
+, 
+}
+	packet
+int {
+    Pad /// triple
+      @lengthOf(	Pad
+)
+    `{ , }`
+
+    ,
+
+}MetaData 
+
+    /// triple
+      //
+	T
+{
+	A
+	i8i8 `it's`	,  u8x
+    options1 ,roots zchar // `tick` ""quote"" 'q'
+
+,int16 u8x , char[]a1  `say ""hi""`	,  char 
+  //	t
+    	/// triple
+
+	Pad
+    ,
+	} 	 // a // b
 ")).
 Eval vm_compute in ("<<<M1112>>>" ++ check (runes_of_ascii "packet// `tick` ""quote"" 'q'
 o {
@@ -1646,194 +1849,81 @@ char[ 10
 ; uint8x=	false
     ;}
 ")).
-Eval vm_compute in ("<<<M74>>>" ++ check (runes_of_ascii "// packet A { u8 x, }
-root packet
-charz {
-    matchKey { repeat
-    Foo { // trailing space 
-uint8 chars @lengthOf(	x
-    ) , } //
-, pack{rootA@lengthOf( MetaDataX// c
-) , } // a // b
-, roots{zchar[	10	]
-    leftPad ,
-    } ,	repeat pack
-stringy`two words` ,	}, } packet rootA {char[ 10 ]
-    x_y_z
-`{ , }` , uint64 falsey ,
-    // " ++ [27880; 37322]%N ++ runes_of_ascii "
-    }
-")).
-Eval vm_compute in ("<<<M659>>>" ++ check (runes_of_ascii "packet lengthOf { repeat options1
-A
-,repeatCount @calculatedFrom(
-    """ ++ [128512]%N ++ runes_of_ascii """ )`two words`,i64 _x `{ , }` ,
-string
-_x
-@lengthOf( Pad  ) , match
-body // " ++ [27880; 37322]%N ++ runes_of_ascii "
-as u128 {1 : f32a, } , @lengthOf( /// triple
-MetaDataX  )
-    float64 _x,} packet calculatedFrom {
-i16 rootA ,}
-//x
-// c
-MetaData
-repeatCount
-    {} options {o
-    = 1 }
-")).
-Eval vm_compute in ("<<<M4301>>>" ++ check (runes_of_ascii "
-options 
+Eval vm_compute in ("<<<M828>>>" ++ check (runes_of_ascii "options {
+} //	t
+options { MetaDataX =	"""" ; int //x
+= true ;
+    int
+    =""abc"";// @lengthOf(
+repeatCount=true T= ""a\\""  ;}
+    MetaData len {	A
+int ,string T`tab	here` , repeatCount lengthOf	`it's`
+,
+    Pad
+Pad, }MetaData MetaDataX
+/// triple
+// " ++ [27880; 37322]%N ++ runes_of_ascii "
 {
-
-Packet =
-'\x00' 	 // " ++ [27880; 37322]%N ++ runes_of_ascii "
-
-i64_
-
-    =  3  ;
-falsey 	 //
-= 00 
-;	x_y_z	=  0 	 // a // b
-    ;  Header	= 	 // " ++ [128512]%N ++ runes_of_ascii " emoji
-  ""a\""b""
-	}	MetaData
-
-f32a
-    {  } 
-options {metadata
-	=
-""it's""; }	options { 
-}
-options 
-{calculatedFrom
-
-    =int32  ;len
-
-= 
-""" ++ [128512]%N ++ runes_of_ascii """
-
-    _x  =""it's""	BodyLength=
-0123456789  }
+//	t
+// trailing space 
+uint8
+    matchKey `" ++ [233]%N ++ runes_of_ascii "` ,	repeatCount crc  , char[] As
+    , }
 ")).
-Eval vm_compute in ("<<<M4394>>>" ++ check (runes_of_ascii "packet A {
-    u8 a,
+Eval vm_compute in ("<<<M4014>>>" ++ check (runes_of_ascii "options {
 }
 
-packet B {
-    u16 b,
-}
-
-packet C {
-    u32 c,
-}
-
-root packet M {
-    u16 Kc,
-    u16 Kb,
-    u16 Ka,
-    match Kc as X {
-        9 : A,
-        10 : B,
+packet crc {
+    calculatedFrom {
+        zchar[7] Logon,// @lengthOf(
+        trueish rootA `say ""hi""`,
+        repeat calculatedFrom Z9_,
+        repeat MetaDataX {
+            repeat char[] int,
+        },
     },
-    match Kb as Y {
-        2 : C,
-        1 : A,
+    rootA @calculatedFrom(""it's""),
+    match charz as body {
+        0123456789 : chars,
     },
-    match Ka as Z {
-        1 : B,
-    },
-    A,
-    B,
-    C,
 }")).
-Eval vm_compute in ("<<<M3485>>>" ++ check (runes_of_ascii "packet
-    A 
-{	u8
-a
-	,
-    }
-packet B{u16 b , } packet
-	C{u32 c , 
-}
-root  packet M{u16
-
-    Kc , 
-u16 Kb ,  u16 Ka
-
-,
-
-    match Kc
-as
-
-X{ 9
-    :
-
-    A, 10
-	: 
-B
-
-,	}
-
-, match	Kb 
-as 
-Y	{2 :
-C
-    ,
-
-    1: A 
-,
-    }
-
-,
-
-    match 
-Ka
-as Z{  1
-    :
-	B
-, 
-} 
-, A, B,
-C,
-    }
-
+Eval vm_compute in ("<<<M670>>>" ++ check (runes_of_ascii "
+options
+    {// " ++ [27880; 37322]%N ++ runes_of_ascii "
+i8i8	=""abc"" } root packet o{
+}packet Header { string i8i8 `" ++ [233]%N ++ runes_of_ascii "` , @lengthOf( As )
+// packet A { u8 x, }
+// " ++ [128512]%N ++ runes_of_ascii " emoji
+@calculatedFrom(
+//x
+// packet A { u8 x, }
+""" ++ [128512]%N ++ runes_of_ascii """ )@leftPad( '0'
+)	repeat	A{
+char[
+255 ] options1 , repeat char[]int
+    // " ++ [27880; 37322]%N ++ runes_of_ascii "
+    `line1
+line2`
+/// triple
+// packet A { u8 x, }
+, } ,}
 ")).
-Eval vm_compute in ("<<<M3733>>>" ++ check (runes_of_ascii "root packet string_ {
-    zchar[1] stringy @lengthOf(charz) `u8 x,`,
-    repeat falsey {
-        i8 u128 @lengthOf(u128) `line1
-        line2`,
-        float @calculatedFrom(""a	b""),
-        chars,
-        char[0] Header,
-    },
-    i8i8 `// not a comment`,//
-}
-
-packet T {
-    repeat lengthOf,
+Eval vm_compute in ("<<<M1054>>>" ++ check (runes_of_ascii "root packet f32a
+{
+u16 trueish
+, o { o
+    @calculatedFrom( """" ), roots@calculatedFrom(  ""1"" ) , // a // b
+float32
+    T , } , @calculatedFrom(""// no comment"") As , @leftPad(
+'\x00'
+)@lengthOf( uint8x ) @lengthOf( lengthOf ) repeatCount@calculatedFrom(
+    """ ++ [128512]%N ++ runes_of_ascii """ )
+, @calculatedFrom(
+""1""  )repeat
+x
+,
 }")).
-Eval vm_compute in ("<<<M1521>>>" ++ check (runes_of_ascii "root packet Foo // " ++ [128512]%N ++ runes_of_ascii " emoji
-{ } options {
-    // a // b
-    tag // `tick` ""quote"" 'q'
-= //	t
-""""
-    ; u8x = zchar[0  ] }
-MetaData
-    int {zchar[ 10 lengthOf
-]	`` , i64 u8x`// not a comment` ,MetaDataX pack// `tick` ""quote"" 'q'
-`crlf
-line`
-, Logon charz `crlf
-line`
-    ,
-    // a // b
-    }
-")).
-Eval vm_compute in ("<<<M1526>>>" ++ check (runes_of_ascii "root packet Foo // " ++ [128512]%N ++ runes_of_ascii " emoji
+Eval vm_compute in ("<<<M1540>>>" ++ check (runes_of_ascii "root packet Foo // " ++ [128512]%N ++ runes_of_ascii " emoji
 { } options {
     // a // b
     tag // `tick` ""quote"" 'q'
@@ -1842,7 +1932,7 @@ Eval vm_compute in ("<<<M1526>>>" ++ check (runes_of_ascii "root packet Foo // "
     ; u8x = zchar[0  ] }
 MetaData
     int {zchar[ 10]
-``	lengthOf , i64 u8x`// not a comment` ,MetaDataX pack// `tick` ""quote"" 'q'
+lengthOf	`` , i64 i64 u8x`// not a comment` ,MetaDataX pack// `tick` ""quote"" 'q'
 `crlf
 line`
 , Logon charz `crlf
@@ -1851,16 +1941,16 @@ line`
     // a // b
     }
 ")).
-Eval vm_compute in ("<<<M1532>>>" ++ check (runes_of_ascii "root packet Foo // " ++ [128512]%N ++ runes_of_ascii " emoji
+Eval vm_compute in ("<<<M1490>>>" ++ check (runes_of_ascii "root packet Foo // " ++ [128512]%N ++ runes_of_ascii " emoji
 { } options {
     // a // b
     tag // `tick` ""quote"" 'q'
 = //	t
 """"
-    ; u8x = zchar[0  ] }
+    ; u8x = zchar[0  ] } }
 MetaData
     int {zchar[ 10]
-lengthOf	} , i64 u8x`// not a comment` ,MetaDataX pack// `tick` ""quote"" 'q'
+lengthOf	`` , i64 u8x`// not a comment` ,MetaDataX pack// `tick` ""quote"" 'q'
 `crlf
 line`
 , Logon charz `crlf
@@ -1869,25 +1959,7 @@ line`
     // a // b
     }
 ")).
-Eval vm_compute in ("<<<M1564>>>" ++ check (runes_of_ascii "root packet Foo // " ++ [128512]%N ++ runes_of_ascii " emoji
-{ } options {
-    // a // b
-    tag // `tick` ""quote"" 'q'
-= //	t
-""""
-    ; u8x = zchar[0  ] }
-MetaData
-    int {zchar[ 10]
-lengthOf	`` , i64 u8x`// not a comment` ,MetaDataX // `tick` ""quote"" 'q'
-`crlf
-line`
-, Logon charz `crlf
-line`
-    ,
-    // a // b
-    }
-")).
-Eval vm_compute in ("<<<M1569>>>" ++ check (runes_of_ascii "root packet Foo // " ++ [128512]%N ++ runes_of_ascii " emoji
+Eval vm_compute in ("<<<M1416>>>" ++ check (runes_of_ascii "root Foo packet // " ++ [128512]%N ++ runes_of_ascii " emoji
 { } options {
     // a // b
     tag // `tick` ""quote"" 'q'
@@ -1897,60 +1969,115 @@ Eval vm_compute in ("<<<M1569>>>" ++ check (runes_of_ascii "root packet Foo // "
 MetaData
     int {zchar[ 10]
 lengthOf	`` , i64 u8x`// not a comment` ,MetaDataX pack// `tick` ""quote"" 'q'
-
+`crlf
+line`
 , Logon charz `crlf
 line`
     ,
     // a // b
     }
 ")).
-Eval vm_compute in ("<<<M883>>>" ++ check (runes_of_ascii "
-packet repeatCount{	@calculatedFrom( ""\n"" )
-match BodyLength as matchKey
-// trailing space 
-// trailing space 
-{ 0123456789 : /// triple
-msg_type 4294967296 :f32a,	[""" ++ [233]%N ++ runes_of_ascii "t" ++ [233]%N ++ runes_of_ascii """, ""// no comment""
-,3 ] : Foo ,
-    65535
-:zchar	,
-// a // b
-//
-4294967296 : packetx	,
-}
-    ,	}")).
-Eval vm_compute in ("<<<M1145>>>" ++ check (runes_of_ascii "
-packet Pad
-{ @lengthOf(
-    // c
-    x_y_z) @leftPad (
-    ' ' )	@tag(65535
-)
-roots uint8x// @lengthOf(
-, trueish
-    { char[]float @calculatedFrom( ""it's"" )
-, a1 u128 , }
-,@tag( 42
-) repeat float `" ++ [28040; 24687; 31867; 22411]%N ++ runes_of_ascii "`
+Eval vm_compute in ("<<<M1576>>>" ++ check (runes_of_ascii "root packet Foo // " ++ [128512]%N ++ runes_of_ascii " emoji
+{ } options {
+    // a // b
+    tag // `tick` ""quote"" 'q'
+= //	t
+""""
+    ; u8x = zchar[0  ] }
+MetaData
+    int {zchar[ 10]
+lengthOf	`` , i64 u8x`// not a comment` ,MetaDataX pack// `tick` ""quote"" 'q'
+`crlf
+line`
+Logon , charz `crlf
+line`
+    ,
+    // a // b
+    }
+")).
+Eval vm_compute in ("<<<M4326>>>" ++ check (runes_of_ascii "packet trueish {
     // trailing space 
-    ,// trailing space 
+    zchar[0] o @lengthOf(float),
+    @tag(10)
+    stringy {
+        zchar[65535] matchKey,
+    },
+    @lengthOf(asx)
+    zchar[10] string_ @calculatedFrom("""") `it's`,
+}
+
+options {
+    rootA = ""1"";
+}
+
+options {
+    body = u32
+    repeatCount = '\x00'
+}")).
+Eval vm_compute in ("<<<M1414>>>" ++ check (runes_of_ascii "root  Foo // " ++ [128512]%N ++ runes_of_ascii " emoji
+{ } options {
+    // a // b
+    tag // `tick` ""quote"" 'q'
+= //	t
+""""
+    ; u8x = zchar[0  ] }
+MetaData
+    int {zchar[ 10]
+lengthOf	`` , i64 u8x`// not a comment` ,MetaDataX pack// `tick` ""quote"" 'q'
+`crlf
+line`
+, Logon charz `crlf
+line`
+    ,
+    // a // b
+    }
+")).
+Eval vm_compute in ("<<<M559>>>" ++ check (runes_of_ascii "packet
+msg_type	{ charz
+`` , Logon @lengthOf( As
+    ) // " ++ [128512]%N ++ runes_of_ascii " emoji
+, zchar[ 10]  Packet ,@rightPad (
+' ' // " ++ [128512]%N ++ runes_of_ascii " emoji
+)
+repeat As{char[ 007]
+int@lengthOf( roots//	t
+),
+    int64
+u8x `" ++ [233]%N ++ runes_of_ascii "` ,zchar
+    // `tick` ""quote"" 'q'
+    @calculatedFrom( """ ++ [233]%N ++ runes_of_ascii "t" ++ [233]%N ++ runes_of_ascii """
+    ) , } // a // b
+,/// triple
 }
 ")).
-Eval vm_compute in ("<<<M714>>>" ++ check (runes_of_ascii "root packet  u128 {	} root packet x_y_z
-{ @tag( 10	)//x
-repeat
-    char[]
-roots
+Eval vm_compute in ("<<<M408>>>" ++ check (runes_of_ascii "root packet x  {
+u64 stringy
+`it's` , @tag( 1 )
+    body, @tag(0 ) string string_ , repeat/// triple
+As
+// a // b
+//x
+{ string pack `line1
+line2` , options1 @calculatedFrom(""// no comment"" )`say ""hi""`
 ,
-    @calculatedFrom( ""it's""	) zchar[ 00]
-trueish`a\` ,zchar[ 10]
-crc @calculatedFrom(""// no comment""
-    ),
-    float32
-    BodyLength @calculatedFrom(  ""\n"" )
-, }
+} , repeat leftPad `line1
+line2` // " ++ [27880; 37322]%N ++ runes_of_ascii "
+, char[] msg_type , }
 ")).
-Eval vm_compute in ("<<<M4180>>>" ++ check (runes_of_ascii "root packet Foo {
+Eval vm_compute in ("<<<M1606>>>" ++ check (runes_of_ascii "root packet Foo // " ++ [128512]%N ++ runes_of_ascii " emoji
+{ } options {
+    // a // b
+    tag // `tick` ""quote"" 'q'
+= //	t
+""""
+    ; u8x = zchar[0  ] }
+MetaData
+    int {zchar[ 10]
+lengthOf	`` , i64 u8x`// not a comment` ,MetaDataX pack// `tick` ""quote"" 'q'
+`crlf
+line`
+, Logon charz ")).
+Eval vm_compute in ("<<<M3596>>>" ++ check (runes_of_ascii "root packet Foo {
 }
 
 options {
@@ -1963,12 +2090,33 @@ MetaData int {
     zchar[10] lengthOf ``,
     i64 u8x `// not a comment`,
     MetaDataX pack `crlf
-        line`,
+    line`,
     Logon charz `crlf
-        line`,
+    line`,
+    // a // b
 }")).
-Eval vm_compute in ("<<<M2266>>>" ++ check (runes_of_ascii "MetaData Packet { }packet	asx  { @lengthOf( asx) falsey`crlf
-line` `crlf
+Eval vm_compute in ("<<<M1314>>>" ++ check (runes_of_ascii "// " ++ [27880; 37322]%N ++ runes_of_ascii "
+root packet rootA {  @calculatedFrom( ""\" ++ [233]%N ++ runes_of_ascii """
+) uint32 calculatedFrom ,
+    // trailing space 
+    }  MetaData
+stringy{ f32a charz ,// packet A { u8 x, }
+uint32 repeatCount
+    , i64_ u128 `say ""hi""`,
+    string calculatedFrom , }
+")).
+Eval vm_compute in ("<<<M2351>>>" ++ check (runes_of_ascii "MetaData Packet { }packet	asx  { @lengthOf( asx) falsey`crlf
+line`
+,
+    }
+    packet x	{uint32// @lengthOf(
+rootA	,u32 options1 `say ""hi""` , @tag( 7
+    )// packet A { u8 x, }
+msg_type @lengthOf( @lengthOf(
+stringy	)	, }
+
+")).
+Eval vm_compute in ("<<<M2228>>>" ++ check (runes_of_ascii "MetaData Packet { ""CRC32""packet	asx  { @lengthOf( asx) falsey`crlf
 line`
 ,
     }
@@ -1979,62 +2127,30 @@ msg_type @lengthOf(
 stringy	)	, }
 
 ")).
-Eval vm_compute in ("<<<M2217>>>" ++ check (runes_of_ascii "MetaData Packet Packet { }packet	asx  { @lengthOf( asx) falsey`crlf
+Eval vm_compute in ("<<<M2291>>>" ++ check (runes_of_ascii "MetaData Packet { }packet	asx  { @lengthOf( asx) falsey`crlf
 line`
 ,
     }
-    packet x	{uint32// @lengthOf(
+    packet x	{ {uint32// @lengthOf(
 rootA	,u32 options1 `say ""hi""` , @tag( 7
     )// packet A { u8 x, }
 msg_type @lengthOf(
 stringy	)	, }
 
 ")).
-Eval vm_compute in ("<<<M870>>>" ++ check (runes_of_ascii "
-MetaData MetaDataX { stringy chars , Z9_ Foo ,
-}options
-{ }// " ++ [27880; 37322]%N ++ runes_of_ascii "
-packet x_y_z{ } packet
-stringy { uint64 packetx  , o , metadata // c
-MetaDataX  , repeat float32 len// `tick` ""quote"" 'q'
-, i64_
-,	}
+Eval vm_compute in ("<<<M1383>>>" ++ check (runes_of_ascii "root  packet packetx
+{ trueish
+    @lengthOf(  repeatCount) , @lengthOf(
+    u
+) // `tick` ""quote"" 'q'
+Packet u // trailing space 
+`" ++ [233]%N ++ runes_of_ascii "`
+    , }
     options
-{ }")).
-Eval vm_compute in ("<<<M2363>>>" ++ check (runes_of_ascii "MetaData Packet { }packet	asx  { @lengthOf( asx) falsey`crlf
-line`
-,
-    }
-    packet x	{uint32// @lengthOf(
-rootA	,u32 options1 `say ""hi""` , @tag( 7
-    )// packet A { u8 x, }
-msg_type @lengthOf(
-stringy	as	, }
-
-")).
-Eval vm_compute in ("<<<M2312>>>" ++ check (runes_of_ascii "MetaData Packet { }packet	asx  { @lengthOf( asx) falsey`crlf
-line`
-,
-    }
-    packet x	{uint32// @lengthOf(
-rootA	,options1 u32 `say ""hi""` , @tag( 7
-    )// packet A { u8 x, }
-msg_type @lengthOf(
-stringy	)	, }
-
-")).
-Eval vm_compute in ("<<<M2365>>>" ++ check (runes_of_ascii "MetaData Packet { }packet	asx  { @lengthOf( asx) falsey`crlf
-line`
-,
-    }
-    packet x	{uint32// @lengthOf(
-rootA	,u32 options1 `say ""hi""` , @tag( 7
-    )// packet A { u8 x, }
-msg_type @lengthOf(
-stringy	)	 }
-
-")).
-Eval vm_compute in ("<<<M2260>>>" ++ check (runes_of_ascii "MetaData Packet { }packet	asx  { @lengthOf( asx) `crlf
+    {
+leftPad =
+    0123456789; u = 65535 ; } // " ++ [128512]%N ++ runes_of_ascii " emoji")).
+Eval vm_compute in ("<<<M2393>>>" ++ check (runes_of_ascii "MetaData Packet { }packet	asx  { @lengthOf( a" ++ [769]%N ++ runes_of_ascii "b) falsey`crlf
 line`
 ,
     }
@@ -2045,49 +2161,80 @@ msg_type @lengthOf(
 stringy	)	, }
 
 ")).
-Eval vm_compute in ("<<<M2320>>>" ++ check (runes_of_ascii "MetaData Packet { }packet	asx  { @lengthOf( asx) falsey`crlf
+Eval vm_compute in ("<<<M2310>>>" ++ check (runes_of_ascii "MetaData Packet { }packet	asx  { @lengthOf( asx) falsey`crlf
 line`
 ,
     }
     packet x	{uint32// @lengthOf(
-rootA	,u32 options1  , @tag( 7
+rootA	, options1 `say ""hi""` , @tag( 7
     )// packet A { u8 x, }
 msg_type @lengthOf(
 stringy	)	, }
 
 ")).
-Eval vm_compute in ("<<<M4201>>>" ++ check (runes_of_ascii "packet As {
-    @tag(7)
-    repeat char[4294967296] stringy,
-    int16 falsey,
-    @tag(00)
-    repeat u16 rootA `crlf
-        line`,
-    calculatedFrom charz,
+Eval vm_compute in ("<<<M3501>>>" ++ check (runes_of_ascii "packet Logon {
+    string user,
 }
-
-MetaData a1 {
+root packet Frame {
+    u8 K,
+    match K as Body {
+        1 : Logon,
+        2 : Logout,
+    },
+    Tail,
 }
-
-MetaData asx {
-}")).
-Eval vm_compute in ("<<<M751>>>" ++ check (runes_of_ascii "options
-// " ++ [128512]%N ++ runes_of_ascii " emoji
-// " ++ [128512]%N ++ runes_of_ascii " emoji
-{options1	=""{,}"" //
-} options
-{ packetx = '0' ;roots
-    =4294967296 As=	""CRC32"" ; chars
-// trailing space 
+packet Logout {
+    u16 reason,
+}
+packet Tail {
+    u32 crc,
+}
+")).
+Eval vm_compute in ("<<<M166>>>" ++ check (runes_of_ascii "packet u128 {
+@rightPad (
+    ' '
+    //x
+    )// c
+Packet , f64
+//
+// @lengthOf(
+Pad `it's` , }packet i64_{ } packet trueish { @leftPad	( '\x00')leftPad
+@calculatedFrom( // " ++ [27880; 37322]%N ++ runes_of_ascii "
+""`tick`"" ) `u8 x,` , }
+")).
+Eval vm_compute in ("<<<M315>>>" ++ check (runes_of_ascii "packet// " ++ [27880; 37322]%N ++ runes_of_ascii "
+trueish { match f32a
+as stringy	{ """ ++ [28040; 24687]%N ++ runes_of_ascii """ : _x ,
+1 : //x
+stringy
+    ,
+    65535 :u8x 65535: // trailing space 
+asx
 // packet A { u8 x, }
-=//	t
-7; i8i8 = zchar[ 255	] }")).
-Eval vm_compute in ("<<<M4226>>>" ++ check (runes_of_ascii "MetaData roots {
+// c
+,  }
+    // packet A { u8 x, }
+    , }")).
+Eval vm_compute in ("<<<M3486>>>" ++ check (runes_of_ascii "options {
+    FixedStringPadChar = '0';
+}
+packet Q {
+    zchar[4] z,
+    @rightPad('\x00') char[3] n,
+    char[5] d,
+}
+root packet R {
+    Q,
+    zchar[8] top,
+    repeat zchar[2] zs,
+}
+")).
+Eval vm_compute in ("<<<M4456>>>" ++ check (runes_of_ascii "MetaData roots {
 }
 
 MetaData stringy {
     Logon leftPad `crlf
-        line`,
+    line`,
     char[] metadata `{ , }`,
     falsey pack `" ++ [233]%N ++ runes_of_ascii "`,
     i8 repeatCount,
@@ -2096,426 +2243,389 @@ MetaData stringy {
 options {
     matchKey = ' '
 }")).
-Eval vm_compute in ("<<<M3391>>>" ++ check (runes_of_ascii "// top
-MetaData
-    // c0
-_x
-    // c1
-{
-    // c2
-zchar[
-    // c3
-4294967296
-    // c4
-]
-    // c5
-lengthOf
-    // c6
-`// not a comment`
-    // c7
-,
-    // c8
-}
-    // c9
-")).
-Eval vm_compute in ("<<<M594>>>" ++ check (runes_of_ascii "MetaData
-// packet A { u8 x, }
-// @lengthOf(
-string_ { char[]
-Pad `// not a comment`
-, i32// a // b
-lengthOf `{ , }` ,	u16
-    As , len x_y_z , char[] rootA
-    , }
-
-")).
-Eval vm_compute in ("<<<M115>>>" ++ check (runes_of_ascii "root packet T{ }	MetaData	msg_type { i64_ //x
-i64_,  } root packet
-    // packet A { u8 x, }
-    x_y_z { }  MetaData	crc { o
-zchar`line1
-line2`
-,} packet
-x{ }")).
-Eval vm_compute in ("<<<M2344>>>" ++ check (runes_of_ascii "MetaData Packet { }packet	asx  { @lengthOf( asx) falsey`crlf
-line`
-,
-    }
-    packet x	{uint32// @lengthOf(
-rootA	,u32 options1 `say ""hi""` , @tag( 7")).
-Eval vm_compute in ("<<<M4211>>>" ++ check (runes_of_ascii "packet u128 {
-    u128 @lengthOf(matchKey),
-    u64 crc `a\`,
-    @calculatedFrom(""x y"")
-    float32 zchar,
-    repeat char[007] uint8x,
-    a1,
-}")).
-Eval vm_compute in ("<<<M3441>>>" ++ check (runes_of_ascii "
-packet
-B{
-    u8  a
-
-    ,} root
-    packet
-
-P {  u8
-K ,
-
-    match  K
-    as
-Body {
-
-    1
-:
-B,}
-, 
-u16
-	L @lengthOf( 
-Body ) ,
-} ")).
-Eval vm_compute in ("<<<M3899>>>" ++ check (runes_of_ascii "packet A {
-    match k as n {
-        [
-            1, 007, 5, 7, ""bb"",
-            ""d"", ""f"", ""h""
-        ] : B,
-        2 : C,
+Eval vm_compute in ("<<<M3851>>>" ++ check (runes_of_ascii "packet msg_type {
+    match leftPad as float {
+        3 : repeatCount,
+        [0123456789, 3, 10, 65535, 1] : Header,
+        ""{,}"" : packetx,
+        0 : _x,
     },
 }")).
-Eval vm_compute in ("<<<M1695>>>" ++ check (runes_of_ascii "root packet /// triple
+Eval vm_compute in ("<<<M1051>>>" ++ check (runes_of_ascii "MetaData leftPad {
+    string int
+// c
+// " ++ [27880; 37322]%N ++ runes_of_ascii "
+`tab	here` // c
+, char[] f32a`u8 x,` ,zchar[ // @lengthOf(
+255 ]
+    uint8x
+, i32 x
+    `crlf
+line` ,// c
+i8 asx	,}
+")).
+Eval vm_compute in ("<<<M3698>>>" ++ check (runes_of_ascii "packet int {
+    match roots as u8x {
+        7 : packetx,
+        0 : As,
+        ""packet"" : a1,
+        ""packet"" : float,
+    },
+    Z9_ @lengthOf(u128),
+}")).
+Eval vm_compute in ("<<<M4024>>>" ++ check (runes_of_ascii "packet
+crc{ }
+options 
+{
+a1
+    = 
+char[
+	3
+    ]	;}root
+packet
+Pad
+{}
+    packet crc { int32 
+zchar  // @lengthOf(
+  ,}
+packet
+    pack
+    {}
+
+")).
+Eval vm_compute in ("<<<M418>>>" ++ check (runes_of_ascii "  packet repeatCount
+    {
+    } packet
+charz
+{ @calculatedFrom( ""// no comment"" ) int32	msg_type
+@lengthOf(f32a
+    /// triple
+    ) , } // " ++ [27880; 37322]%N)).
+Eval vm_compute in ("<<<M977>>>" ++ check (runes_of_ascii "MetaData As
+    { u repeatCount//	t
+, zchar[ 0123456789] x//
+`two words`
+, float asx
+, falsey
+lengthOf  , char[] leftPad `crlf
+line` , }")).
+Eval vm_compute in ("<<<M3663>>>" ++ check (runes_of_ascii "packet	Logon 
+	// c
+    	{  @tag(
+
+    42
+    ) @rightPad 
+(
+' '
+) @leftPad ( )repeat
+	trueish
+
+{
+    string
+
+    T,
+	}	,
+    }
+")).
+Eval vm_compute in ("<<<M1723>>>" ++ check (runes_of_ascii "root '1'packet /// triple
 rootA {	i32
 MetaDataX@calculatedFrom( ""CRC32"" ) `line1
-line2` , } MetaData BodyLength packet
-u8
-rootA, } // c")).
-Eval vm_compute in ("<<<M1663>>>" ++ check (runes_of_ascii "root packet /// triple
-rootA {	i32
-MetaDataX@calculatedFrom( ""CRC32"" ) ) `line1
 line2` , } MetaData BodyLength {
 u8
 rootA, } // c")).
-Eval vm_compute in ("<<<M1659>>>" ++ check (runes_of_ascii "root packet /// triple
+Eval vm_compute in ("<<<M1729>>>" ++ check (runes_of_ascii "root packet /// triple
 rootA {	i32
-MetaDataX@calculatedFrom( ) ""CRC32"" `line1
+MetaDataX@calculatedFrom( ""CRC32"" ) `line1
 line2` , } MetaData BodyLength {
 u8
-rootA, } // c")).
-Eval vm_compute in ("<<<M504>>>" ++ check (runes_of_ascii "MetaData
-    u128
-{char[255 ] _x
-`{ , }`
-,
-    string leftPad , u8
-    A
-, zchar[
-0123456789]Foo , char[] As`{ , }` , } 	 ")).
-Eval vm_compute in ("<<<M1045>>>" ++ check (runes_of_ascii "MetaData calculatedFrom { zchar[ 10]
-    u128 `doc` ,zchar[ 0123456789 ]
-    packetx ,char[]// trailing space 
-MetaDataX
-,
-}")).
-Eval vm_compute in ("<<<M3853>>>" ++ check (runes_of_ascii "packet B {
-    u8 a,
-}
-
-root packet P {
-    u8 K,
-    u64 L @lengthOf(Body),
-    match K as Body {
-        1 : B,
-    },
-}")).
-Eval vm_compute in ("<<<M1647>>>" ++ check (runes_of_ascii "root packet /// triple
+'rootA, } // c")).
+Eval vm_compute in ("<<<M1677>>>" ++ check (runes_of_ascii "root packet /// triple
 rootA {	i32
-@calculatedFrom( ""CRC32"" ) `line1
-line2` , } MetaData BodyLength {
+MetaDataX@calculatedFrom( ""CRC32"" ) `line1
+line2` ,  MetaData BodyLength {
 u8
 rootA, } // c")).
-Eval vm_compute in ("<<<M1891>>>" ++ check (runes_of_ascii "packet
+Eval vm_compute in ("<<<M1890>>>" ++ check (runes_of_ascii "packet
     Pad // a // b
-{ " ++ [127]%N ++ runes_of_ascii "i8i8 @calculatedFrom( ""a	b"") `u8 x,` ,
+{ i8i8 @calculatedFrom( ""a	b"") `u8 x,` ,
+} options{ float// " ++ [128512]%N ++ runes_of_ascii " emoji
+= f64 i64_
+=//	t
+@leftpad00 }
+")).
+Eval vm_compute in ("<<<M3864>>>" ++ check (runes_of_ascii "
+
+  packet
+    Logon
+    {
+
+@tag(	42
+) @rightPad(	' '  )
+@leftPad
+(  ) repeat trueish	{
+
+    string T , } 
+,
+	} 
+// c
+ 
+")).
+Eval vm_compute in ("<<<M148>>>" ++ check (runes_of_ascii "packet i8i8 //x
+{int16 // trailing space 
+stringy // " ++ [128512]%N ++ runes_of_ascii " emoji
+@calculatedFrom(
+""// no comment"" ),
+} packet
+_x {
+    }
+")).
+Eval vm_compute in ("<<<M1887>>>" ++ check (runes_of_ascii "packet
+    Pad // a // b
+{ ~ i8i8 @calculatedFrom( ""a	b"") `u8 x,` ,
 } options{ float// " ++ [128512]%N ++ runes_of_ascii " emoji
 = f64 i64_
 =//	t
 00 }
 ")).
-Eval vm_compute in ("<<<M2991>>>" ++ check (runes_of_ascii "packet A {
-  match k as n {
-    [""a"", ""bb"", ""c c"", ""d"", ""e"", ""f"", ""g"", ""h"", ""i"", ""j"", ""k"", ""l""] : B,
-    2 : C
-  },
-}")).
-Eval vm_compute in ("<<<M4021>>>" ++ check (runes_of_ascii "packet i8i8 {
-    lengthOf lengthOf `u8 x,`,
-}
-
-options {
-    u = '\x00';
-}
-
-MetaData i64_ {
-}
-
-MetaData Header {
-}")).
-Eval vm_compute in ("<<<M1652>>>" ++ check (runes_of_ascii "root packet /// triple
-rootA {	i32
-MetaDataX ""CRC32"" ) `line1
-line2` , } MetaData BodyLength {
-u8
-rootA, } // c")).
-Eval vm_compute in ("<<<M48>>>" ++ check (runes_of_ascii "//x
-packet uint8x { u8 // packet A { u8 x, }
-roots `a\`	, match len
-as charz{
-[ 3 , """" ] : Z9_
-,
-    } , }
+Eval vm_compute in ("<<<M792>>>" ++ check (runes_of_ascii "packet i8i8 { @tag(00)@lengthOf( // @lengthOf(
+chars ) @leftPad ( '\x00' ) A
+@calculatedFrom(	""it's"" )	`{ , }` ,	}
 ")).
-Eval vm_compute in ("<<<M217>>>" ++ check (runes_of_ascii "packet i8i8  { lengthOf lengthOf
-    `u8 x,`
-, }options{u =
-'\x00'; } MetaData i64_ {
-}MetaData Header {}")).
-Eval vm_compute in ("<<<M1186>>>" ++ check (runes_of_ascii "//x
-options { x_y_z
-= i16// " ++ [128512]%N ++ runes_of_ascii " emoji
-charz
-    // c
-    = ""a	b""
-    ;
-// @lengthOf(
-//
-len  =	' '
-    ;}")).
-Eval vm_compute in ("<<<M3364>>>" ++ check (runes_of_ascii "packet calculatedFrom { @tag( 4294967296 ) u msg_type , char[ 3 ] crc
-// c
-@lengthOf( len ) `u8 x,` , }")).
-Eval vm_compute in ("<<<M4495>>>" ++ check (runes_of_ascii "  packet
-A{
-	Inner
-{	match
-    k  as
-    n {
-
-    [ 1
+Eval vm_compute in ("<<<M1820>>>" ++ check (runes_of_ascii "packet
+    Pad // a // b
+{ i8i8 @calculatedFrom( ""a	b"") `u8 x,` 
+} options{ float// " ++ [128512]%N ++ runes_of_ascii " emoji
+= f64 i64_
+=//	t
+00 }
+")).
+Eval vm_compute in ("<<<M1038>>>" ++ check (runes_of_ascii "
+packet BodyLength { @tag(3	) int16
+    BodyLength , zchar[
+1
+]
+    body @calculatedFrom( ""`tick`""
+)
+    , }
+")).
+Eval vm_compute in ("<<<M724>>>" ++ check (runes_of_ascii "MetaData float {
+tag
+    body `" ++ [233]%N ++ runes_of_ascii "`
+,f64 i8i8 `{ , }` , f32 chars `two words` , Pad
+i64_ // @lengthOf(
+,} //	t")).
+Eval vm_compute in ("<<<M3979>>>" ++ check (runes_of_ascii "packet Logon {
+    @tag(42)
+    @rightPad(' ')
+    @leftPad()
+    repeat trueish {
+        string T,
+    },
+}")).
+Eval vm_compute in ("<<<M4331>>>" ++ check (runes_of_ascii "options {
+    repeatCount = u16;
+    float = ' '
+    Logon = string;
+    packetx = 3//
+    a1 = zchar[7]
+}")).
+Eval vm_compute in ("<<<M3339>>>" ++ check (runes_of_ascii "packet // c
+calculatedFrom { @tag( 4294967296 ) u msg_type , char[ 3 ] crc @lengthOf( len ) `u8 x,` , }")).
+Eval vm_compute in ("<<<M3371>>>" ++ check (runes_of_ascii "packet calculatedFrom { @tag( 4294967296 ) u msg_type , char[ 3 ] crc @lengthOf( len ) `u8 x,` // c
+, }")).
+Eval vm_compute in ("<<<M4346>>>" ++ check (runes_of_ascii "packet
+A
+    {
+Inner  {	u8 x	`a
+    b
+  c`,  Deep 
+{ u8
+y `a
+    b
+  c`
 
     ,
-	22 ]
+}
 
-    :
-B
-,
-} ,
-    } ,
-	}
-")).
-Eval vm_compute in ("<<<M2939>>>" ++ check (runes_of_ascii "packet A {
+    ,  }
+,}")).
+Eval vm_compute in ("<<<M2985>>>" ++ check (runes_of_ascii "packet A {
   match k as n {
-    [""a"", ""bb"", ""c c"", ""d"", ""e"", ""f"", ""g"", ""h""] : B,
+    [1, 22, ""c c"", 4, 5, ""f"", 7, 8, ""i"", 10, 11] : B
     2 : C
   },
 }")).
-Eval vm_compute in ("<<<M2956>>>" ++ check (runes_of_ascii "packet A {
-  match k as n {
-    [""a"", 22, ""c c"", 4, ""e"", 66, ""g"", 8, ""i""] : B,
-    2 : C
-  },
-}")).
-Eval vm_compute in ("<<<M3246>>>" ++ check (runes_of_ascii "packet Logon { @tag( 42 ) @rightPad ( ' ' ) @leftPad ( ) repeat trueish { // c
+Eval vm_compute in ("<<<M3214>>>" ++ check (runes_of_ascii "// c
+packet Logon { @tag( 42 ) @rightPad ( ' ' ) @leftPad ( ) repeat trueish { string T , } , }")).
+Eval vm_compute in ("<<<M3247>>>" ++ check (runes_of_ascii "packet Logon { @tag( 42 ) @rightPad ( ' ' ) @leftPad ( ) repeat trueish {
+// c
 string T , } , }")).
-Eval vm_compute in ("<<<M2040>>>" ++ check (runes_of_ascii "@leftpadroot
-packet crc
-    { f32a @calculatedFrom( """ ++ [233]%N ++ runes_of_ascii "t" ++ [233]%N ++ runes_of_ascii """ )
-    `say ""hi""`, lengthOf `` ,  }")).
+Eval vm_compute in ("<<<M3702>>>" ++ check (runes_of_ascii "root packet lengthOf {
+    @tag(4294967296)
+    @calculatedFrom(""" ++ [128512]%N ++ runes_of_ascii """)
+    i32 msg_type `a\`,
+}")).
 Eval vm_compute in ("<<<M1407>>>" ++ check (runes_of_ascii "root packet SimpleMessage {
     uint16 MsgType `" ++ [28040; 24687; 31867; 22411]%N ++ runes_of_ascii "`,
     string JsonBody `Json" ++ [23383; 31526; 20018; 28040; 24687; 20307]%N ++ runes_of_ascii "`,
 }")).
-Eval vm_compute in ("<<<M812>>>" ++ check (runes_of_ascii "packet int {}
-    // packet A { u8 x, }
-    packet Pad { repeat zchar[
-7 ] body`" ++ [233]%N ++ runes_of_ascii "` , }
-")).
-Eval vm_compute in ("<<<M2042>>>" ++ check (runes_of_ascii "`root
-packet crc
+Eval vm_compute in ("<<<M1969>>>" ++ check (runes_of_ascii "root
+packet `" ++ [28040; 24687; 31867; 22411]%N ++ runes_of_ascii "`
     { f32a @calculatedFrom( """ ++ [233]%N ++ runes_of_ascii "t" ++ [233]%N ++ runes_of_ascii """ )
     `say ""hi""`, lengthOf `` ,  }")).
-Eval vm_compute in ("<<<M4193>>>" ++ check (runes_of_ascii "  packet
-A
+Eval vm_compute in ("<<<M4142>>>" ++ check (runes_of_ascii "  packet
 
-    {
+A { match k
+	as n  { 
+[  ""a""
+,22
 
-    match
-
-    k  as  n{ 1
-:B  // a
-// b
-	2
-    :  C	}, }")).
-Eval vm_compute in ("<<<M2917>>>" ++ check (runes_of_ascii "packet A {
+    ,	""c c""	,  4,	""e""  ]:	B 2 
+:C },
+} ")).
+Eval vm_compute in ("<<<M1979>>>" ++ check (runes_of_ascii "root
+packet crc
+    { root @calculatedFrom( """ ++ [233]%N ++ runes_of_ascii "t" ++ [233]%N ++ runes_of_ascii """ )
+    `say ""hi""`, lengthOf `` ,  }")).
+Eval vm_compute in ("<<<M3477>>>" ++ check (runes_of_ascii "packet order_item {
+    u8 a,
+}
+root packet new_order {
+    order_item,
+    u8 x,
+}
+")).
+Eval vm_compute in ("<<<M256>>>" ++ check (runes_of_ascii "packet matchKey {
+@tag( 7
+    ) @leftPad
+    //x
+    ( '\x00')
+    string_ ,	} 	 ")).
+Eval vm_compute in ("<<<M3314>>>" ++ check (runes_of_ascii "packet o { @tag( 42 ) repeat x { char[ 0123456789 // c
+] i64_ , } , } options { }")).
+Eval vm_compute in ("<<<M2916>>>" ++ check (runes_of_ascii "packet A {
   match k as n {
-    [""a"", 22, ""c c"", 4, ""e"", 66] : B,
+    [1, ""bb"", 007, ""d"", 5, ""f""] : B
     2 : C
   },
 }")).
-Eval vm_compute in ("<<<M3305>>>" ++ check (runes_of_ascii "packet o { @tag( 42 )
+Eval vm_compute in ("<<<M2920>>>" ++ check (runes_of_ascii "packet A {
+  match k as n {
+    [1, 22, ""c c"", 4, 5, ""f""] : B
+    2 : C
+  },
+}")).
+Eval vm_compute in ("<<<M2988>>>" ++ check (runes_of_ascii "packet A { Inner { match k as n { [1,22,007,4,5,66,7,8,9,10,11] : B, }, }, }")).
+Eval vm_compute in ("<<<M689>>>" ++ check (runes_of_ascii "MetaData i64_ { options1
+x	`crlf
+line`,} packet u { } // trailing space ")).
+Eval vm_compute in ("<<<M2899>>>" ++ check (runes_of_ascii "packet A {
+  match k as n {
+    [1, 22, 007, 4, 5] : B
+    2 : C
+  },
+}")).
+Eval vm_compute in ("<<<M3406>>>" ++ check (runes_of_ascii "MetaData _x { zchar[ 4294967296 ]
 // c
-repeat x { char[ 0123456789 ] i64_ , } , } options { }")).
-Eval vm_compute in ("<<<M68>>>" ++ check (runes_of_ascii "options { stringy=""x y""  ;
-chars
-=true Logon = string crc = true Logon
-= char }")).
-Eval vm_compute in ("<<<M46>>>" ++ check (runes_of_ascii "options
-    {
-    }packet
-    repeatCount { // `tick` ""quote"" 'q'
-}options{}
+lengthOf `// not a comment` , }")).
+Eval vm_compute in ("<<<M1834>>>" ++ check (runes_of_ascii "packet
+    Pad // a // b
+{ i8i8 @calculatedFrom( ""a	b"") `u8 x,` ,
+}")).
+Eval vm_compute in ("<<<M2717>>>" ++ check (runes_of_ascii "@leftPad options [ `doc` uint64 root { zchar[ { MetaData ; MetaData")).
+Eval vm_compute in ("<<<M388>>>" ++ check (runes_of_ascii "MetaData calculatedFrom  { // a // b
+u64
+A, float32 u8x ,}
+// " ++ [27880; 37322]%N ++ runes_of_ascii "
 ")).
-Eval vm_compute in ("<<<M3995>>>" ++ check (runes_of_ascii "root 
-	    // `t" ++ [65279]%N ++ runes_of_ascii "ick` ""quote"" 'q'
-      packet 
-As { trueish
-
-Packet , 
-}
-")).
-Eval vm_compute in ("<<<M947>>>" ++ check (runes_of_ascii "
-packet Packet
-    // c
-    { repeat Pad
-    leftPad
-,
-    //	t
-    } 	 ")).
-Eval vm_compute in ("<<<M3457>>>" ++ check (runes_of_ascii "
-root
-	packet
-	P 
-{ u16  a, u32
-Sum@calculatedFrom( ""CRC32""
-    ) 
-,  }")).
-Eval vm_compute in ("<<<M3409>>>" ++ check (runes_of_ascii "MetaData _x { zchar[ 4294967296 ] lengthOf `// not a comment` // c
-, }")).
-Eval vm_compute in ("<<<M2184>>>" ++ check (runes_of_ascii "root
+Eval vm_compute in ("<<<M2160>>>" ++ check (runes_of_ascii "root
     // `tick` ""quote"" 'q'
-    packet As { trueish Packet u16 }
+    i32 As { trueish Packet , }
 ")).
-Eval vm_compute in ("<<<M3621>>>" ++ check (runes_of_ascii "
-packet
-//	t
-
-  //
-    packetx
-	{ repeat zchar[007
-]Foo
-
-    ,}
-
-")).
-Eval vm_compute in ("<<<M919>>>" ++ check (runes_of_ascii "MetaData matchKey{} MetaData
-    rootA{//	t
-falsey stringy
-,
+Eval vm_compute in ("<<<M2856>>>" ++ check (runes_of_ascii "zchar[ @lengthOf( int8 u64 f32 : float64 ( char[] @tag( char[")).
+Eval vm_compute in ("<<<M3462>>>" ++ check (runes_of_ascii "root packet P {
+    repeat string ss,
+    repeat u16 ns,
 }
 ")).
-Eval vm_compute in ("<<<M2867>>>" ++ check (runes_of_ascii "packet A {
-  match k as n {
-    [1, ""bb""] : B,
-    2 : C
-  },
-}")).
-Eval vm_compute in ("<<<M3024>>>" ++ check (runes_of_ascii "MetaData M {
-    u8 x `a
-    b
-  c`,
-    T t `a
-    b
-  c`,
-}")).
-Eval vm_compute in ("<<<M2897>>>" ++ check (runes_of_ascii "packet A { Inner { match k as n { [1,22,007,4] : B, }, }, }")).
 Eval vm_compute in ("<<<M1949>>>" ++ check (runes_of_ascii "
 packet	As { @calculatedFrom(//x
 ""{,}""	)lengthOf # , } 	 ")).
-Eval vm_compute in ("<<<M1898>>>" ++ check (runes_of_ascii "
-As	packet { @calculatedFrom(//x
-""{,}""	)lengthOf , } 	 ")).
+Eval vm_compute in ("<<<M632>>>" ++ check (runes_of_ascii "MetaData charz {
+    char[7] body `tab	here` // " ++ [27880; 37322]%N ++ runes_of_ascii "
+, }
+")).
 Eval vm_compute in ("<<<M1956>>>" ++ check (runes_of_ascii "
 packet	As { @calculatedFrom(//x
 ""{,}""	)caf" ++ [233]%N ++ runes_of_ascii "_1 , } 	 ")).
-Eval vm_compute in ("<<<M1225>>>" ++ check (runes_of_ascii "  packet  u { repeat x pack `// not a comment`, }
-")).
-Eval vm_compute in ("<<<M2415>>>" ++ check (runes_of_ascii "MetaData A
-{
-i64
-chars	, } // `tick` ""qu?ote"" 'q'")).
-Eval vm_compute in ("<<<M1743>>>" ++ check (runes_of_ascii "options { { }options {  } // `tick` ""quote"" 'q'")).
-Eval vm_compute in ("<<<M1780>>>" ++ check (runes_of_ascii "opt\ions { }options {  } // `tick` ""quote"" 'q'")).
-Eval vm_compute in ("<<<M1747>>>" ++ check (runes_of_ascii "options { options {  } // `tick` ""quote"" 'q'")).
-Eval vm_compute in ("<<<M3744>>>" ++ check (runes_of_ascii "
-MetaData
-
-/// triple
-    	BodyLength
-	{	}
-")).
-Eval vm_compute in ("<<<M3018>>>" ++ check (runes_of_ascii "MetaData M {
-    u8 x `
-`,
-    T t `
-`,
+Eval vm_compute in ("<<<M1915>>>" ++ check (runes_of_ascii "
+packet	As { @calculatedFrom(//x
+	)lengthOf , } 	 ")).
+Eval vm_compute in ("<<<M2586>>>" ++ check (runes_of_ascii "packet A { x @lengthOf(y) @calculatedFrom(""c""), }")).
+Eval vm_compute in ("<<<M1762>>>" ++ check (runes_of_ascii "options { }options {  } } // `tick` ""quote"" 'q'")).
+Eval vm_compute in ("<<<M1777>>>" ++ check (runes_of_ascii "?options { }options {  } // `tick` ""quote"" 'q'")).
+Eval vm_compute in ("<<<M4504>>>" ++ check (runes_of_ascii "packet packetx {
+    repeat zchar[007] Foo,
 }")).
-Eval vm_compute in ("<<<M2744>>>" ++ check (runes_of_ascii "!}#nP]WB#d!4m &%rd=1Z\-""oa^ntV9;N*>hg2cq")).
-Eval vm_compute in ("<<<M2137>>>" ++ check (runes_of_ascii "MetaData x
-#{// " ++ [128512]%N ++ runes_of_ascii " emoji
-i16 stringy , }")).
+Eval vm_compute in ("<<<M2851>>>" ++ check (runes_of_ascii ", string [ f32 = repeatCount f64 { MetaData")).
+Eval vm_compute in ("<<<M2165>>>" ++ check (runes_of_ascii "root
+    // `tick` ""quote"" 'q'
+    packet")).
+Eval vm_compute in ("<<<M2687>>>" ++ check ([65533; 65533]%N ++ runes_of_ascii "Z;" ++ [65533; 65533; 7; 65533; 65533]%N ++ runes_of_ascii "e" ++ [65533; 65533; 4]%N ++ runes_of_ascii ";c$" ++ [65533; 65533; 65533; 65533]%N ++ runes_of_ascii "[B" ++ [23; 8; 7]%N ++ runes_of_ascii "}" ++ [2]%N ++ runes_of_ascii "4" ++ [65533; 6; 65533; 65533]%N ++ runes_of_ascii "tm" ++ [3; 65533]%N ++ runes_of_ascii "4" ++ [65533; 22]%N ++ runes_of_ascii "Q")).
+Eval vm_compute in ("<<<M611>>>" ++ check (runes_of_ascii "  MetaData x_y_z
+{ } // trailing space ")).
 Eval vm_compute in ("<<<M2557>>>" ++ check (runes_of_ascii "packet A { repeat u8 x @lengthOf(y), }")).
-Eval vm_compute in ("<<<M2818>>>" ++ check ([65533; 65533; 28; 65533]%N ++ runes_of_ascii "9i%" ++ [65533]%N ++ runes_of_ascii "V" ++ [65533]%N ++ runes_of_ascii "Q" ++ [65533; 65533; 65533]%N ++ runes_of_ascii "[" ++ [65533; 65533; 65533]%N ++ runes_of_ascii "Z" ++ [65533; 65533; 65533]%N ++ runes_of_ascii ">F" ++ [65533]%N ++ runes_of_ascii "|" ++ [65533; 65533; 65533; 65533; 65533]%N ++ runes_of_ascii "f" ++ [9700; 4; 65533; 65533; 65533]%N)).
-Eval vm_compute in ("<<<M2558>>>" ++ check (runes_of_ascii "packet A { repeat x @lengthOf(y), }")).
-Eval vm_compute in ("<<<M305>>>" ++ check (runes_of_ascii "
-packet asx{ u64
-MetaDataX
-, }
-")).
-Eval vm_compute in ("<<<M3565>>>" ++ check (runes_of_ascii "packet A {
-    u8 x `d" ++ [8203]%N ++ runes_of_ascii "`,// c" ++ [8203]%N ++ runes_of_ascii "
-}")).
-Eval vm_compute in ("<<<M2600>>>" ++ check (runes_of_ascii "packet A { match k as n { }, }")).
-Eval vm_compute in ("<<<M1919>>>" ++ check (runes_of_ascii "
-packet	As { @calculatedFrom(")).
-Eval vm_compute in ("<<<M4463>>>" ++ check (runes_of_ascii "  // c" ++ [160]%N ++ runes_of_ascii "
-	packet  A
+Eval vm_compute in ("<<<M2705>>>" ++ check (runes_of_ascii "] false ""`tick`"" charz { int64 zchar[")).
+Eval vm_compute in ("<<<M2601>>>" ++ check (runes_of_ascii "packet A { match k as n { 1 : B } }")).
+Eval vm_compute in ("<<<M2598>>>" ++ check (runes_of_ascii "packet A { B { @tag(1) u8 x, }, }")).
+Eval vm_compute in ("<<<M289>>>" ++ check (runes_of_ascii "options
+    // " ++ [128512]%N ++ runes_of_ascii " emoji
     { }
 ")).
-Eval vm_compute in ("<<<M2052>>>" ++ check (runes_of_ascii "MetaData A A { u64 pack, }")).
-Eval vm_compute in ("<<<M2095>>>" ++ check (runes_of_ascii "MetaData A { u64 pack, }/")).
-Eval vm_compute in ("<<<M2063>>>" ++ check (runes_of_ascii "MetaData A { pack u64, }")).
+Eval vm_compute in ("<<<M3063>>>" ++ check (runes_of_ascii "packet A {
+ u8 x `d `, // c 
+}")).
+Eval vm_compute in ("<<<M3026>>>" ++ check (runes_of_ascii "packet A {
+    u8 x `a
+
+b`,
+}")).
+Eval vm_compute in ("<<<M943>>>" ++ check (runes_of_ascii "
+MetaData a1{ // a // b
+}")).
+Eval vm_compute in ("<<<M2077>>>" ++ check (runes_of_ascii "MetaData A { u64 pack, } }")).
+Eval vm_compute in ("<<<M2192>>>" ++ check (runes_of_ascii "root
+    // `tick` ""quote")).
+Eval vm_compute in ("<<<M2078>>>" ++ check (runes_of_ascii "MetaData A { u64 pack, (")).
 Eval vm_compute in ("<<<M645>>>" ++ check (runes_of_ascii "
  // packet A { u8 x, }")).
-Eval vm_compute in ("<<<M2064>>>" ++ check (runes_of_ascii "MetaData A { ( pack, }")).
-Eval vm_compute in ("<<<M2821>>>" ++ check (runes_of_ascii "as u32 , ) as options")).
-Eval vm_compute in ("<<<M538>>>" ++ check (runes_of_ascii "options{
-    } //	t")).
-Eval vm_compute in ("<<<M1760>>>" ++ check (runes_of_ascii "options { }options")).
-Eval vm_compute in ("<<<M3107>>>" ++ check (runes_of_ascii "// c" ++ [8239]%N ++ runes_of_ascii "
-packet A {
+Eval vm_compute in ("<<<M1358>>>" ++ check (runes_of_ascii "root packet Logon {
 }")).
-Eval vm_compute in ("<<<M2682>>>" ++ check (runes_of_ascii "// only a comment")).
-Eval vm_compute in ("<<<M2490>>>" ++ check (runes_of_ascii "@calculatedFrom(")).
-Eval vm_compute in ("<<<M3719>>>" ++ check (runes_of_ascii "packet	A {
-}
+Eval vm_compute in ("<<<M3149>>>" ++ check (runes_of_ascii "packet A {
+}// a// b")).
+Eval vm_compute in ("<<<M590>>>" ++ check (runes_of_ascii "
+packet x_y_z { }
 
 ")).
-Eval vm_compute in ("<<<M2118>>>" ++ check (runes_of_ascii "MetaData x
-{")).
-Eval vm_compute in ("<<<M2833>>>" ++ check (runes_of_ascii "x" ++ [65533; 27; 65533; 65533]%N ++ runes_of_ascii "c" ++ [65533; 65533; 65533]%N ++ runes_of_ascii "T")).
-Eval vm_compute in ("<<<M2433>>>" ++ check (runes_of_ascii "zchar [")).
-Eval vm_compute in ("<<<M2735>>>" ++ check (runes_of_ascii "B3{" ++ [65533; 65533; 65533]%N)).
-Eval vm_compute in ("<<<M2810>>>" ++ check ([14]%N ++ runes_of_ascii "'" ++ [65533]%N ++ runes_of_ascii "s" ++ [65533]%N)).
-Eval vm_compute in ("<<<M2507>>>" ++ check (runes_of_ascii """a\""")).
-Eval vm_compute in ("<<<M2525>>>" ++ check (runes_of_ascii "007")).
-Eval vm_compute in ("<<<M2533>>>" ++ check (runes_of_ascii "__")).
-Eval vm_compute in ("<<<M44>>>" ++ check (@nil rune)).
+Eval vm_compute in ("<<<M860>>>" ++ check (runes_of_ascii "//	t
+options
+{ }
+
+")).
+Eval vm_compute in ("<<<M3097>>>" ++ check (runes_of_ascii "// c" ++ [8232]%N ++ runes_of_ascii "
+packet A {
+}")).
+Eval vm_compute in ("<<<M2644>>>" ++ check (runes_of_ascii "MetaData M { x, }")).
+Eval vm_compute in ("<<<M2047>>>" ++ check (runes_of_ascii " A { u64 pack, }")).
+Eval vm_compute in ("<<<M3964>>>" ++ check (runes_of_ascii "
+packet
+
+A { }")).
+Eval vm_compute in ("<<<M2550>>>" ++ check ([65279]%N ++ runes_of_ascii "packet A {}")).
+Eval vm_compute in ("<<<M1751>>>" ++ check (runes_of_ascii "options {")).
+Eval vm_compute in ("<<<M2465>>>" ++ check (runes_of_ascii "matches")).
+Eval vm_compute in ("<<<M685>>>" ++ check (runes_of_ascii " // c")).
+Eval vm_compute in ("<<<M3090>>>" ++ check (runes_of_ascii "// c" ++ [8202]%N)).
+Eval vm_compute in ("<<<M2536>>>" ++ check (runes_of_ascii "A1b2")).
+Eval vm_compute in ("<<<M2542>>>" ++ check (runes_of_ascii "ab")).
+Eval vm_compute in ("<<<M2704>>>" ++ check (runes_of_ascii ",X")).
